@@ -2,8 +2,9 @@
   C04 — generated JavaScript ≡ Go renderer, COMMAND level (partial).
 
   The fragment: raw text, `{print}` with directives, `{let $x: e /}`, `{if}/{elseif}/{else}`,
-  `{foreach $x in e}…{ifempty}…{/foreach}` (not over `range(…)`), the expressions of Props/C04c inside
-  them.
+  `{foreach $x in e}…{ifempty}…{/foreach}`, `{for $i in range(a[, b[, c]])}` (c a positive literal),
+  `{switch}` (`{default}` last), `{let $x}…{/let}` content blocks (a buffer of their own), the expressions
+  of Props/C04c inside them.
 
   1. `toCmds` translates the commands, in the generator scope they are met in, to the statement AST of
      Spec/JsStmt; `walkCmds_renders`: the generator model writes EXACTLY `renderStmts` of the
@@ -69,6 +70,32 @@ def foreachStmts (names : Bytes × Bytes × Bytes × Bytes) (list : JsExpr) (bod
       | none => loop
       | some ie => .ifPos names.2.2.1 (.one loop) ie)))
 
+/-- a positive integer literal (the step of a `range`) -/
+def posLit : Expr → Bool
+  | .int _ c => decide (0 < c)
+  | _ => false
+
+/-- `var vLimit = limit; for (var v = init; v < vLimit; v += incr) {…}` -/
+def rangeStmts (names : Bytes × Bytes) (limit init incr : JsExpr) (body : JsStmts) : JsStmts :=
+  .cons (.var names.2 limit) (.one (.forStep names.1 names.2 init incr body))
+
+/-- `{for $v in range(…)}` from the translation of its body (in the loop's frame): one to three
+    arguments, the step absent or a positive literal -/
+def rangeJoin (v : Bytes) (list : Expr) (sc : Scope) (rb : Option (JsStmts × Scope)) (noIfEmpty : Bool) :
+    Option (JsStmts × Scope) :=
+  if v.contains 36 || !noIfEmpty then none
+  else match isRangeCall list with
+    | none => none
+    | some args =>
+      match rangeLimit args with
+      | none => none
+      | some l =>
+        if posLit (rangeIncr args) then
+          match toAst sc l, toAst sc (rangeInit args), toAst sc (rangeIncr args), rb with
+          | some jl, some ji, some jc, some rb => some (rangeStmts (sc.pushForRange v).1 jl ji jc rb.1, rb.2.pop)
+          | _, _, _, _ => none
+        else none
+
 /-- `{foreach $v in list}` from the translations of its parts: the body (in the loop's frame) and the
     `{ifempty}` block (a function of the scope it is met in, after the loop's frame is popped) -/
 def forcJoin (v : Bytes) (list : Expr) (sc : Scope) (rb : Option (JsStmts × Scope))
@@ -84,67 +111,114 @@ def forcJoin (v : Bytes) (list : Expr) (sc : Scope) (rb : Option (JsStmts × Sco
             | some re => some (foreachStmts (sc.pushForEach v).1 j rb.1 (some re.1), re.2)))
     | _, _ => none
 
+/-- the case labels of a clause -/
+def astList (sc : Scope) : List Expr → Option (List JsExpr)
+  | [] => some []
+  | e :: r =>
+    match toAst sc e, astList sc r with
+    | some j, some js => some (j :: js)
+    | _, _ => none
+
+/-- one `{case v, …}` / `{default}` clause from the translations of its parts; `{default}` is the last clause -/
+def caseJoin (sc : Scope) (values : List Expr) (rb : Option (JsStmts × Scope)) (last : Bool)
+    (rest : Scope → Option (JsCases × Scope)) : Option (JsCases × Scope) :=
+  match rb with
+  | none => none
+  | some rb =>
+    if values.isEmpty then (if last then some (.dflt rb.1, rb.2) else none)
+    else match astList sc values, rest rb.2 with
+      | some js, some rr => some (.cons js rb.1 rr.1, rr.2)
+      | _, _ => none
+
+/-- `{let $x}…{/let}` from the translation of its body (run with the new buffer): declare the buffer, fill it,
+    bind the name to it -/
+def letJoin (name : Bytes) (sc : Scope) (rb : Option (JsStmts × Scope)) : Option (JsStmts × Scope) :=
+  if name.contains 36 then none
+  else match rb with
+    | some rb => some (.cons (.varEmpty (sc.genname name).1) rb.1, rb.2.bind name (sc.genname name).1)
+    | none => none
+
+/-- a loop command: `{foreach}` over a list, else `{for}` over a range -/
+def loopJoin (v : Bytes) (list : Expr) (sc : Scope) (rbEach : Option (JsStmts × Scope))
+    (ie : Option (Scope → Option (JsStmts × Scope))) (rbRange : Option (JsStmts × Scope)) (noIfEmpty : Bool) :
+    Option (JsStmts × Scope) :=
+  match forcJoin v list sc rbEach ie with
+  | some r => some r
+  | none => rangeJoin v list sc rbRange noIfEmpty
+
 section
-variable (ae : Autoescape) (buf : Bytes)
+variable (ae : Autoescape)
 
 mutual
   /-- a command in the scope `sc`: its statements and the scope for the commands after it -/
-  def toCmd : Cmd → Scope → Option (JsStmts × Scope)
-    | .rawText _ t, sc => some (.one (.appendLit buf t), sc)
-    | .print _ arg dirs, sc =>
+  def toCmd : Bytes → Cmd → Scope → Option (JsStmts × Scope)
+    | buf, .rawText _ t, sc => some (.one (.appendLit buf t), sc)
+    | buf, .print _ arg dirs, sc =>
       if dirs.all dirOk then
         match toAst sc arg, collectDirs dirs with
         | some j, some ck => some (.one (.append buf j (printDirs ae ck.1 ck.2)), sc)
         | _, _ => none
       else none
-    | .letValue _ x e, sc =>
+    | buf, .letValue _ x e, sc =>
       if x.contains 36 then none
       else match toAst sc e with
         | some j => some (.one (.var (sc.makevar x).1 j), (sc.makevar x).2)
         | none => none
-    | .ifc _ conds, sc =>
-      match toConds conds sc with
+    | buf, .ifc _ conds, sc =>
+      match toConds buf conds sc with
       | some r => some (.one (.ifs r.1), r.2)
       | none => none
-    | .forc _ v list body ifEmpty, sc =>
+    | buf, .forc _ v list body ifEmpty, sc =>
       -- `{foreach $v in list}` (not over `range(…)`): the list is evaluated outside the loop frame
-      forcJoin v list sc (toBody body (sc.pushForEach v).2)
+      loopJoin v list sc (toBody buf body (sc.pushForEach v).2)
         (match ifEmpty with
           | none => none
-          | some ie => some (toBlock ie))
-    | _, _ => none
+          | some ie => some (toBlock buf ie))
+        (toBody buf body (sc.pushForRange v).2) ifEmpty.isNone
+    | buf, .switch _ value cases, sc =>
+      match toAst sc value, toCases buf cases sc with
+      | some j, some rc => some (.one (.switchS j rc.1), rc.2)
+      | _, _ => none
+    | _, .letContent _ name body, sc =>
+      -- `{let $x}…{/let}`: the body writes to a buffer of its own, which `$x` then names
+      letJoin name sc (toBlock (sc.genname name).1 body (sc.genname name).2)
+    | _, _, _ => none
   /-- the body of a loop: in the loop's frame -/
-  def toBody : Block → Scope → Option (JsStmts × Scope)
-    | .mk _ cmds, sc => toCmds cmds sc
+  def toBody : Bytes → Block → Scope → Option (JsStmts × Scope)
+    | buf, .mk _ cmds, sc => toCmds buf cmds sc
   /-- a block has a scope frame of its own -/
-  def toBlock : Block → Scope → Option (JsStmts × Scope)
-    | .mk _ cmds, sc =>
-      match toCmds cmds sc.push with
+  def toBlock : Bytes → Block → Scope → Option (JsStmts × Scope)
+    | buf, .mk _ cmds, sc =>
+      match toCmds buf cmds sc.push with
       | some r => some (r.1, r.2.pop)
       | none => none
-  def toCmds : CmdList → Scope → Option (JsStmts × Scope)
-    | .nil, sc => some (.nil, sc)
-    | .cons c rest, sc =>
-      match toCmd c sc with
+  def toCmds : Bytes → CmdList → Scope → Option (JsStmts × Scope)
+    | buf, .nil, sc => some (.nil, sc)
+    | buf, .cons c rest, sc =>
+      match toCmd buf c sc with
       | none => none
       | some r1 =>
-        match toCmds rest r1.2 with
+        match toCmds buf rest r1.2 with
         | none => none
         | some r2 => some (r1.1.append r2.1, r2.2)
-  def toConds : CondList → Scope → Option (JsConds × Scope)
-    | .nil, sc => some (.nil, sc)
-    | .cons _ cond body rest, sc =>
+  def toCases : Bytes → CaseList → Scope → Option (JsCases × Scope)
+    | buf, .nil, sc => some (.nil, sc)
+    | buf, .cons _ values body rest, sc =>
+      caseJoin sc values (toBlock buf body sc) (match rest with | .nil => true | _ => false) (toCases buf rest)
+  def toConds : Bytes → CondList → Scope → Option (JsConds × Scope)
+    | buf, .nil, sc => some (.nil, sc)
+    | buf, .cons _ cond body rest, sc =>
       match cond with
       | some c =>
-        (match toAst sc c, toBlock body sc with
+        (match toAst sc c, toBlock buf body sc with
           | some j, some rb =>
-            (match toConds rest rb.2 with
+            (match toConds buf rest rb.2 with
               | some rr => some (.cons j rb.1 rr.1, rr.2)
               | none => none)
           | _, _ => none)
       | none =>
         -- `{else}` is the last branch
-        (match rest, toBlock body sc with
+        (match rest, toBlock buf body sc with
           | .nil, some rb => some (.els rb.1, rb.2)
           | _, _ => none)
 end
@@ -172,6 +246,7 @@ mutual
         ds.flatMap closePieces ++ [.fixed b!";\n"]
     | .var x e => [.fixed (spaces ind), .fixed b!"var ", .ident x, .fixed b!" = "] ++ render e ++ [.fixed b!";", .fixed [10]]
     | .ifs conds => [.fixed (spaces ind)] ++ renderConds ind conds true ++ [.fixed [10]]
+    | .varEmpty x => [.fixed (spaces ind), .fixed b!"var ", .ident x, .fixed b!" = '';", .fixed [10]]
     | .varLength x list =>
       [.fixed (spaces ind), .fixed b!"var ", .ident x, .fixed b!" = ", .ident list, .fixed b!".length;", .fixed [10]]
     | .varIndex x list idx =>
@@ -181,6 +256,13 @@ mutual
       [.fixed (spaces ind), .fixed b!"for (var ", .ident i, .fixed b!" = 0; ", .ident i, .fixed b!" < ", .ident lim,
         .fixed b!"; ", .ident i, .fixed b!"++) {", .fixed [10]] ++ renderStmts (ind + 1) body ++
         [.fixed (spaces ind), .fixed b!"}", .fixed [10]]
+    | .forStep i lim init incr body =>
+      [.fixed (spaces ind), .fixed b!"for (var ", .ident i, .fixed b!" = "] ++ render init ++
+        [.fixed b!"; ", .ident i, .fixed b!" < ", .ident lim, .fixed b!"; ", .ident i, .fixed b!" += "] ++ render incr ++
+        [.fixed b!") {", .fixed [10]] ++ renderStmts (ind + 1) body ++ [.fixed (spaces ind), .fixed b!"}", .fixed [10]]
+    | .switchS e cases =>
+      [.fixed (spaces ind), .fixed b!"switch ("] ++ render e ++ [.fixed b!") {", .fixed [10]] ++ renderCases (ind + 1) cases ++
+        [.fixed (spaces ind), .fixed b!"}", .fixed [10]]
     | .ifPos lim body els =>
       [.fixed (spaces ind), .fixed b!"if (", .ident lim, .fixed b!" > 0) {", .fixed [10]] ++ renderStmts (ind + 1) body ++
         [.fixed (spaces ind), .fixed b!"} else {", .fixed [10]] ++ renderStmts (ind + 1) els ++
@@ -188,6 +270,14 @@ mutual
   def renderStmts (ind : Nat) : JsStmts → List Piece
     | .nil => []
     | .cons s r => renderStmt ind s ++ renderStmts ind r
+  def renderCases (ind : Nat) : JsCases → List Piece
+    | .nil => []
+    | .dflt body =>
+      [.fixed (spaces ind), .fixed b!"default:", .fixed [10]] ++ renderStmts (ind + 1) body ++
+        [.fixed (spaces (ind + 1)), .fixed b!"break;", .fixed [10]]
+    | .cons labels body rest =>
+      labels.flatMap (fun j => [.fixed (spaces ind), .fixed b!"case "] ++ render j ++ [.fixed b!":", .fixed [10]]) ++
+        renderStmts (ind + 1) body ++ [.fixed (spaces (ind + 1)), .fixed b!"break;", .fixed [10]] ++ renderCases ind rest
   def renderConds (ind : Nat) : JsConds → Bool → List Piece
     | .nil, _ => []
     | .els body, first =>
@@ -485,6 +575,102 @@ theorem forcJoin_some {v : Bytes} {list : Expr} {sc : Scope} {rb : Option (JsStm
             simp only [Option.some.injEq] at h
             exact ⟨re, hre, h.symm⟩
 
+theorem loopJoin_some {v : Bytes} {list : Expr} {sc : Scope} {rbEach rbRange : Option (JsStmts × Scope)}
+    {ie : Option (Scope → Option (JsStmts × Scope))} {noIE : Bool} {r : JsStmts × Scope}
+    (h : loopJoin v list sc rbEach ie rbRange noIE = some r) :
+    forcJoin v list sc rbEach ie = some r ∨ rangeJoin v list sc rbRange noIE = some r := by
+  unfold loopJoin at h
+  split at h
+  · rename_i r' hf
+    simp only [Option.some.injEq] at h
+    subst h
+    exact Or.inl hf
+  · exact Or.inr h
+
+theorem isRangeCall_some {list : Expr} {args : ExprList} (h : isRangeCall list = some args) :
+    ∃ p, list = .func p b!"range" args := by
+  cases list <;> simp [isRangeCall] at h
+  rename_i p name a
+  obtain ⟨hn, rfl⟩ := h
+  exact ⟨p, by rw [hn]⟩
+
+/-- what a successful `rangeJoin` was made from -/
+theorem rangeJoin_some {v : Bytes} {list : Expr} {sc : Scope} {rb : Option (JsStmts × Scope)} {noIE : Bool}
+    {r : JsStmts × Scope} (h : rangeJoin v list sc rb noIE = some r) :
+    v.contains 36 = false ∧ noIE = true ∧ ∃ args l c jl ji rbv p, isRangeCall list = some args ∧ rangeLimit args = some l ∧
+      rangeIncr args = .int p c ∧ 0 < c ∧ toAst sc l = some jl ∧ toAst sc (rangeInit args) = some ji ∧ rb = some rbv ∧
+      r = (rangeStmts (sc.pushForRange v).1 jl ji (.num c) rbv.1, rbv.2.pop) := by
+  unfold rangeJoin at h
+  split at h
+  · cases h
+  · rename_i hc
+    simp only [Bool.or_eq_true, not_or, Bool.not_eq_true, Bool.not_eq_eq_eq_not, Bool.not_false] at hc
+    refine ⟨hc.1, by simpa using hc.2, ?_⟩
+    cases ha : isRangeCall list with
+    | none => simp [ha] at h
+    | some args =>
+      simp only [ha] at h
+      cases hl : rangeLimit args with
+      | none => simp [hl] at h
+      | some l =>
+        simp only [hl] at h
+        split at h
+        · rename_i hpos
+          cases hinc : rangeIncr args <;> simp [hinc, posLit] at hpos
+          rename_i p c
+          cases hjl : toAst sc l with
+          | none => simp [hjl] at h
+          | some jl =>
+            cases hji : toAst sc (rangeInit args) with
+            | none => simp [hjl, hji] at h
+            | some ji =>
+              cases rb with
+              | none => simp [hjl, hji, hinc, toAst] at h
+              | some rbv =>
+                simp only [hjl, hji, hinc, toAst, Option.some.injEq] at h
+                exact ⟨args, l, c, jl, ji, rbv, p, rfl, hl, hinc, hpos, hjl, hji, rfl, h.symm⟩
+        · cases h
+
+theorem letJoin_some {name : Bytes} {sc : Scope} {rb : Option (JsStmts × Scope)} {r : JsStmts × Scope}
+    (h : letJoin name sc rb = some r) : name.contains 36 = false ∧ ∃ rbv, rb = some rbv ∧
+      r = (.cons (.varEmpty (sc.genname name).1) rbv.1, rbv.2.bind name (sc.genname name).1) := by
+  unfold letJoin at h
+  split at h
+  · cases h
+  · rename_i hc
+    refine ⟨by simpa using hc, ?_⟩
+    cases rb with
+    | none => cases h
+    | some rbv => simp only [Option.some.injEq] at h; exact ⟨rbv, rfl, h.symm⟩
+
+theorem caseJoin_some {sc : Scope} {values : List Expr} {rb : Option (JsStmts × Scope)} {last : Bool}
+    {rest : Scope → Option (JsCases × Scope)} {r : JsCases × Scope} (h : caseJoin sc values rb last rest = some r) :
+    ∃ rbv, rb = some rbv ∧
+      ((values = [] ∧ last = true ∧ r = (.dflt rbv.1, rbv.2)) ∨
+       (values ≠ [] ∧ ∃ js rr, astList sc values = some js ∧ rest rbv.2 = some rr ∧ r = (.cons js rbv.1 rr.1, rr.2))) := by
+  unfold caseJoin at h
+  cases rb with
+  | none => cases h
+  | some rbv =>
+    refine ⟨rbv, rfl, ?_⟩
+    simp only at h
+    cases values with
+    | nil =>
+      simp only [List.isEmpty_nil, if_true] at h
+      cases last <;> simp at h
+      exact Or.inl ⟨rfl, rfl, h.symm⟩
+    | cons v0 vr =>
+      simp only [List.isEmpty_cons, Bool.false_eq_true, if_false] at h
+      refine Or.inr ⟨by simp, ?_⟩
+      cases hjs : astList sc (v0 :: vr) with
+      | none => simp [hjs] at h
+      | some js =>
+        cases hr : rest rbv.2 with
+        | none => simp [hjs, hr] at h
+        | some rr =>
+          simp only [hjs, hr, Option.some.injEq] at h
+          exact ⟨js, rr, rfl, rfl, h.symm⟩
+
 section
 variable (sk : List Bytes → List Bytes) (o : Options)
 variable {ind : Nat} {buf : Bytes} {ae : Autoescape} {sc : Scope}
@@ -526,23 +712,115 @@ theorem forc_some_runs (p : Nat) (v : Bytes) (list : Expr) (body ie : Block) (j 
   exact (Runs.seq (Runs.setScope _) (Runs.seq Runs.indentP (Runs.seq (Runs.fx _) (Runs.seq (Runs.emit _) (Runs.seq (Runs.fx _) (Runs.seq (Runs.emits _) (Runs.seq (Runs.fx _) (Runs.seq Runs.nl (Runs.seq Runs.indentP (Runs.seq (Runs.fx _) (Runs.seq (Runs.emit _) (Runs.seq (Runs.fx _) (Runs.seq (Runs.emit _) (Runs.seq (Runs.fx _) (Runs.seq Runs.nl (Runs.seq (Runs.whenTrue (Runs.seq Runs.indentP (Runs.seq (Runs.fx _) (Runs.seq (Runs.emit _) (Runs.seq (Runs.fx _) (Runs.seq Runs.nl (Runs.incIndent))))))) (Runs.seq Runs.indentP (Runs.seq (Runs.fx _) (Runs.seq (Runs.emit _) (Runs.seq (Runs.fx _) (Runs.seq (Runs.emit _) (Runs.seq (Runs.fx _) (Runs.seq (Runs.emit _) (Runs.seq (Runs.fx _) (Runs.seq (Runs.emit _) (Runs.seq (Runs.fx _) (Runs.seq Runs.nl (Runs.seq Runs.incIndent (Runs.seq Runs.indentP (Runs.seq (Runs.fx _) (Runs.seq (Runs.emit _) (Runs.seq (Runs.fx _) (Runs.seq (Runs.emit _) (Runs.seq (Runs.fx _) (Runs.seq (Runs.emit _) (Runs.seq (Runs.fx _) (Runs.seq Runs.nl (Runs.seq hb (Runs.seq Runs.decIndent (Runs.seq Runs.indentP (Runs.seq (Runs.fx _) (Runs.seq Runs.nl (Runs.seq Runs.popScope (Runs.seq Runs.decIndent (Runs.seq Runs.indentP (Runs.seq (Runs.fx _) (Runs.seq Runs.nl (Runs.seq Runs.incIndent (Runs.seq hie (Runs.seq Runs.decIndent (Runs.seq Runs.indentP (Runs.seq (Runs.fx _) (Runs.nl))))))))))))))))))))))))))))))))))))))))))))))))))))).cast
     (by simp [foreachStmts, renderStmts, renderStmt, JsStmts.one])
 
+theorem forc_range_runs (p : Nat) (v : Bytes) (list : Expr) (body : Block) (args : ExprList) (l : Expr)
+    (jl ji jc : JsExpr) (rb : JsStmts × Scope) (hr : isRangeCall list = some args) (hl : rangeLimit args = some l)
+    (hjl : toAst sc l = some jl) (hji : toAst sc (rangeInit args) = some ji) (hjc : toAst sc (rangeIncr args) = some jc)
+    (hb : Runs (At (ind + 1) buf ae (sc.pushForRange v).2) (At (ind + 1) buf ae rb.2) (walkBody sk o body)
+      (renderStmts (ind + 1) rb.1)) :
+    Runs (At ind buf ae sc) (At ind buf ae rb.2.pop) (walkCmd sk o (.forc p v list body none))
+      (renderStmts ind (rangeStmts (sc.pushForRange v).1 jl ji jc rb.1)) := by
+  sunfold walkCmd
+  mred
+  rw [hr]
+  mred
+  try dsimp only
+  rw [hl]
+  mred
+  refine (Runs.seq Runs.atOther (Runs.block (walkExpr_renders sk o sc l jl hjl)
+    (Runs.block (walkExpr_renders sk o sc _ ji hji) (Runs.block (walkExpr_renders sk o sc _ jc hjc)
+      (Runs.getScope ?_))))).cast (List.nil_append _)
+  try dsimp only
+  exact (Runs.seq (Runs.setScope _) (Runs.seq Runs.indentP (Runs.seq (Runs.fx _) (Runs.seq (Runs.emit _) (Runs.seq (Runs.fx _) (Runs.seq (Runs.emits _) (Runs.seq (Runs.fx _) (Runs.seq Runs.nl (Runs.seq Runs.indentP (Runs.seq (Runs.fx _) (Runs.seq (Runs.emit _) (Runs.seq (Runs.fx _) (Runs.seq (Runs.emits _) (Runs.seq (Runs.fx _) (Runs.seq (Runs.emit _) (Runs.seq (Runs.fx _) (Runs.seq (Runs.emit _) (Runs.seq (Runs.fx _) (Runs.seq (Runs.emit _) (Runs.seq (Runs.fx _) (Runs.seq (Runs.emits _) (Runs.seq (Runs.fx _) (Runs.seq Runs.nl (Runs.seq Runs.incIndent (Runs.seq hb (Runs.seq Runs.decIndent (Runs.seq Runs.indentP (Runs.seq (Runs.fx _) (Runs.seq Runs.nl (Runs.popScope)))))))))))))))))))))))))))))).cast
+    (by simp [rangeStmts, renderStmts, renderStmt, JsStmts.one])
+
+/-! ### switch -/
+
+theorem labels_runs : ∀ (values : List Expr) (js : List JsExpr), astList sc values = some js →
+    Runs (At ind buf ae sc) (At ind buf ae sc)
+      (JsGen.seqM (values.map fun v => do indentP; fx b!"case "; walkExpr sk o v; fx b!":"; nl))
+      (js.flatMap fun j => [.fixed (spaces ind), .fixed b!"case "] ++ render j ++ [.fixed b!":", .fixed [10]])
+  | [], js, h => by
+    simp only [astList, Option.some.injEq] at h; subst h
+    exact Runs.pure
+  | v :: r, js, h => by
+    unfold astList at h
+    cases hj : toAst sc v with
+    | none => simp [hj] at h
+    | some j =>
+      cases hr : astList sc r with
+      | none => simp [hj, hr] at h
+      | some jr =>
+        simp only [hj, hr, Option.some.injEq] at h; subst h
+        have h1 := walkExpr_renders sk o sc v j hj
+        have h2 := labels_runs r jr hr
+        exact (Runs.seq (Runs.seq Runs.indentP (Runs.seq (Runs.fx _) (Runs.seq (Runs.expr h1) (Runs.seq (Runs.fx _) Runs.nl))))
+          h2).cast (by simp)
+
+theorem cases_nil_runs : Runs (At ind buf ae sc) (At ind buf ae sc) (visitCases sk o .nil) (renderCases ind .nil) := by
+  sunfold visitCases
+  exact Runs.pure
+
+theorem cases_dflt_runs (p : Nat) (body : Block) (b : JsStmts) (sc1 : Scope)
+    (hb : Runs (At (ind + 1) buf ae sc) (At (ind + 1) buf ae sc1) (walkBlock sk o body) (renderStmts (ind + 1) b)) :
+    Runs (At ind buf ae sc) (At ind buf ae sc1) (visitCases sk o (.cons p [] body .nil)) (renderCases ind (.dflt b)) := by
+  sunfold visitCases
+  exact (Runs.seq Runs.pure (Runs.seq (Runs.whenTrue (Runs.seq Runs.indentP (Runs.seq (Runs.fx _) Runs.nl)))
+    (Runs.seq Runs.incIndent (Runs.seq hb (Runs.seq Runs.indentP (Runs.seq (Runs.fx _) (Runs.seq Runs.nl
+      (Runs.seq Runs.decIndent (cases_nil_runs sk o))))))))).cast (by simp [renderCases])
+
+theorem cases_cons_runs (p : Nat) (v0 : Expr) (vr : List Expr) (body : Block) (rest : CaseList) (js : List JsExpr)
+    (b : JsStmts) (rr : JsCases) (sc1 sc2 : Scope) (hjs : astList sc (v0 :: vr) = some js)
+    (hb : Runs (At (ind + 1) buf ae sc) (At (ind + 1) buf ae sc1) (walkBlock sk o body) (renderStmts (ind + 1) b))
+    (hr : Runs (At ind buf ae sc1) (At ind buf ae sc2) (visitCases sk o rest) (renderCases ind rr)) :
+    Runs (At ind buf ae sc) (At ind buf ae sc2) (visitCases sk o (.cons p (v0 :: vr) body rest))
+      (renderCases ind (.cons js b rr)) := by
+  sunfold visitCases
+  exact (Runs.seq (labels_runs sk o (v0 :: vr) js hjs) (Runs.seq Runs.whenFalse
+    (Runs.seq Runs.incIndent (Runs.seq hb (Runs.seq Runs.indentP (Runs.seq (Runs.fx _) (Runs.seq Runs.nl
+      (Runs.seq Runs.decIndent hr)))))))).cast (by simp [renderCases])
+
+theorem switch_runs (p : Nat) (value : Expr) (cases : CaseList) (j : JsExpr) (cs : JsCases) (sc' : Scope)
+    (hj : toAst sc value = some j)
+    (h : Runs (At (ind + 1) buf ae sc) (At (ind + 1) buf ae sc') (visitCases sk o cases) (renderCases (ind + 1) cs)) :
+    Runs (At ind buf ae sc) (At ind buf ae sc') (walkCmd sk o (.switch p value cases)) (renderStmts ind (.one (.switchS j cs))) := by
+  sunfold walkCmd
+  have hv := walkExpr_renders sk o sc value j hj
+  exact (Runs.seq Runs.atOther (Runs.seq Runs.indentP (Runs.seq (Runs.fx _) (Runs.seq (Runs.expr hv) (Runs.seq (Runs.fx _)
+    (Runs.seq Runs.nl (Runs.seq Runs.incIndent (Runs.seq h (Runs.seq Runs.decIndent (Runs.seq Runs.indentP
+      (Runs.seq (Runs.fx _) Runs.nl))))))))))).cast (by simp [renderStmts_one, renderStmt])
+
+theorem Runs.setBuf (buf' : Bytes) : Runs (At ind buf ae sc) (At ind buf' ae sc) (JsGen.setBuf buf') [] := by
+  intro s hs
+  exact ⟨_, rfl, hs.1, rfl, hs.2.2.1, hs.2.2.2⟩
+
+theorem letContent_runs (p : Nat) (name : Bytes) (body : Block) (rb : JsStmts × Scope)
+    (hb : Runs (At ind (sc.genname name).1 ae (sc.genname name).2) (At ind (sc.genname name).1 ae rb.2) (walkBlock sk o body)
+      (renderStmts ind rb.1)) :
+    Runs (At ind buf ae sc) (At ind buf ae (rb.2.bind name (sc.genname name).1)) (walkCmd sk o (.letContent p name body))
+      (renderStmts ind (.cons (.varEmpty (sc.genname name).1) rb.1)) := by
+  sunfold walkCmd
+  refine (Runs.seq Runs.atOther (Runs.getBuf (Runs.getScope ?_))).cast (List.nil_append _)
+  exact (Runs.seq (Runs.setScope _) (Runs.seq (Runs.setBuf _) (Runs.seq Runs.indentP (Runs.seq (Runs.fx _)
+    (Runs.seq (Runs.emit _) (Runs.seq (Runs.fx _) (Runs.seq Runs.nl (Runs.seq hb (Runs.getBuf (Runs.getScope
+      (Runs.seq (Runs.setScope _) (Runs.setBuf _)))))))))))).cast (by simp [renderStmts, renderStmt])
+
 end
 
 /-! ### the recursion -/
 
 section
-variable (sk : List Bytes → List Bytes) (o : Options) (ae : Autoescape) (buf : Bytes)
+variable (sk : List Bytes → List Bytes) (o : Options) (ae : Autoescape)
 
 mutual
   /-- PARTIAL (generator ↔ statement AST): for a command of the fragment, from every state in the
       scope `sc` (any indentation, buffer `buf`, autoescape mode `ae`) the generator writes exactly the
       text of the translation and ends in the scope the translation computes -/
-  theorem walkCmd_renders : ∀ (c : Cmd) (sc : Scope) (r : JsStmts × Scope), toCmd ae buf c sc = some r →
+  theorem walkCmd_renders : ∀ (c : Cmd) (buf : Bytes) (sc : Scope) (r : JsStmts × Scope), toCmd ae buf c sc = some r →
       ∀ ind, Runs (At ind buf ae sc) (At ind buf ae r.2) (walkCmd sk o c) (renderStmts ind r.1)
-    | .rawText p t, sc, r, h, ind => by
+    | .rawText p t, buf, sc, r, h, ind => by
       simp only [toCmd, Option.some.injEq] at h; subst h
       exact rawText_runs sk o p t
-    | .print p arg dirs, sc, r, h, ind => by
+    | .print p arg dirs, buf, sc, r, h, ind => by
       unfold toCmd at h
       split at h
       · rename_i hok
@@ -552,7 +830,7 @@ mutual
           exact print_runs sk o p arg dirs j ck hok hj hc
         · cases h
       · cases h
-    | .letValue p x e, sc, r, h, ind => by
+    | .letValue p x e, buf, sc, r, h, ind => by
       unfold toCmd at h
       split at h
       · cases h
@@ -561,57 +839,96 @@ mutual
           simp only [Option.some.injEq] at h; subst h
           exact letValue_runs sk o p x e j hj
         · cases h
-    | .ifc p conds, sc, r, h, ind => by
+    | .ifc p conds, buf, sc, r, h, ind => by
       unfold toCmd at h
       split at h
       · rename_i rc hrc
         simp only [Option.some.injEq] at h; subst h
-        exact ifc_runs sk o p conds rc.1 rc.2 (visitConds_renders conds sc rc hrc true ind)
+        exact ifc_runs sk o p conds rc.1 rc.2 (visitConds_renders conds buf sc rc hrc true ind)
       · cases h
-    | .msg .., _, _, h, _ => by simp [toCmd] at h
-    | .css .., _, _, h, _ => by simp [toCmd] at h
-    | .debugger .., _, _, h, _ => by simp [toCmd] at h
-    | .log .., _, _, h, _ => by simp [toCmd] at h
-    | .forc p v list body none, sc, r, h, ind => by
+    | .msg .., _, _, _, h, _ => by simp [toCmd] at h
+    | .css .., _, _, _, h, _ => by simp [toCmd] at h
+    | .debugger .., _, _, _, h, _ => by simp [toCmd] at h
+    | .log .., _, _, _, h, _ => by simp [toCmd] at h
+    | .forc p v list body none, buf, sc, r, h, ind => by
       unfold toCmd at h
-      obtain ⟨_, hr, j, rbv, hj, hrb, he⟩ := forcJoin_some h
-      simp only at he
-      subst he
-      exact forc_none_runs sk o p v list body j rbv hr hj (walkBody_renders body _ rbv hrb (ind + 1))
-    | .forc p v list body (some ie), sc, r, h, ind => by
+      rcases loopJoin_some h with h | h
+      · obtain ⟨_, hr, j, rbv, hj, hrb, he⟩ := forcJoin_some h
+        simp only at he
+        subst he
+        exact forc_none_runs sk o p v list body j rbv hr hj (walkBody_renders body buf _ rbv hrb (ind + 1))
+      · obtain ⟨_, _, args, l, c, jl, ji, rbv, pc, hr, hl, hinc, _, hjl, hji, hrb, rfl⟩ := rangeJoin_some h
+        exact forc_range_runs sk o p v list body args l jl ji (.num c) rbv hr hl hjl hji (by rw [hinc]; rfl)
+          (walkBody_renders body buf _ rbv hrb (ind + 1))
+    | .forc p v list body (some ie), buf, sc, r, h, ind => by
       unfold toCmd at h
+      have h := (loopJoin_some h).resolve_right (by intro h'; have := (rangeJoin_some h').2.1; simp at this)
       obtain ⟨_, hr, j, rbv, hj, hrb, he⟩ := forcJoin_some h
       simp only at he
       obtain ⟨re, hre, rfl⟩ := he
-      exact forc_some_runs sk o p v list body ie j rbv re hr hj (walkBody_renders body _ rbv hrb (ind + 1 + 1))
-        (walkBlock_renders ie _ re hre (ind + 1))
-    | .switch .., _, _, h, _ => by simp [toCmd] at h
-    | .call .., _, _, h, _ => by simp [toCmd] at h
-    | .letContent .., _, _, h, _ => by simp [toCmd] at h
-    | .headerParam .., _, _, h, _ => by simp [toCmd] at h
-    | .namespace .., _, _, h, _ => by simp [toCmd] at h
-    | .template .., _, _, h, _ => by simp [toCmd] at h
-    | .soyDoc .., _, _, h, _ => by simp [toCmd] at h
-  theorem walkBody_renders : ∀ (b : Block) (sc : Scope) (r : JsStmts × Scope), toBody ae buf b sc = some r →
+      exact forc_some_runs sk o p v list body ie j rbv re hr hj (walkBody_renders body buf _ rbv hrb (ind + 1 + 1))
+        (walkBlock_renders ie buf _ re hre (ind + 1))
+    | .switch p value cases, buf, sc, r, h, ind => by
+      unfold toCmd at h
+      split at h
+      · rename_i j rc hj hrc
+        simp only [Option.some.injEq] at h; subst h
+        exact switch_runs sk o p value cases j rc.1 rc.2 hj (visitCases_renders cases buf sc rc hrc (ind + 1))
+      · cases h
+    | .call .., _, _, _, h, _ => by simp [toCmd] at h
+    | .letContent p name body, buf, sc, r, h, ind => by
+      unfold toCmd at h
+      obtain ⟨_, rbv, hrb, rfl⟩ := letJoin_some h
+      exact letContent_runs sk o p name body rbv (walkBlock_renders body _ _ rbv hrb ind)
+    | .headerParam .., _, _, _, h, _ => by simp [toCmd] at h
+    | .namespace .., _, _, _, h, _ => by simp [toCmd] at h
+    | .template .., _, _, _, h, _ => by simp [toCmd] at h
+    | .soyDoc .., _, _, _, h, _ => by simp [toCmd] at h
+  theorem visitCases_renders : ∀ (cs : CaseList) (buf : Bytes) (sc : Scope) (r : JsCases × Scope), toCases ae buf cs sc = some r →
+      ∀ ind, Runs (At ind buf ae sc) (At ind buf ae r.2) (visitCases sk o cs) (renderCases ind r.1)
+    | .nil, buf, sc, r, h, ind => by
+      simp only [toCases, Option.some.injEq] at h; subst h
+      exact cases_nil_runs sk o
+    | .cons p values body .nil, buf, sc, r, h, ind => by
+      unfold toCases at h
+      obtain ⟨rbv, hrb, hc⟩ := caseJoin_some h
+      rcases hc with ⟨rfl, _, rfl⟩ | ⟨hne, js, rr, hjs, hrr, rfl⟩
+      · exact cases_dflt_runs sk o p body rbv.1 rbv.2 (walkBlock_renders body buf sc rbv hrb (ind + 1))
+      · cases values with
+        | nil => exact absurd rfl hne
+        | cons v0 vr =>
+          exact cases_cons_runs sk o p v0 vr body .nil js rbv.1 rr.1 rbv.2 rr.2 hjs
+            (walkBlock_renders body buf sc rbv hrb (ind + 1)) (visitCases_renders .nil buf rbv.2 rr hrr ind)
+    | .cons p values body (.cons p2 v2 b2 r2), buf, sc, r, h, ind => by
+      unfold toCases at h
+      obtain ⟨rbv, hrb, hc⟩ := caseJoin_some h
+      rcases hc with ⟨_, hl, _⟩ | ⟨hne, js, rr, hjs, hrr, rfl⟩
+      · simp at hl
+      · cases values with
+        | nil => exact absurd rfl hne
+        | cons v0 vr =>
+          exact cases_cons_runs sk o p v0 vr body _ js rbv.1 rr.1 rbv.2 rr.2 hjs
+            (walkBlock_renders body buf sc rbv hrb (ind + 1)) (visitCases_renders (.cons p2 v2 b2 r2) buf rbv.2 rr hrr ind)
+  theorem walkBody_renders : ∀ (b : Block) (buf : Bytes) (sc : Scope) (r : JsStmts × Scope), toBody ae buf b sc = some r →
       ∀ ind, Runs (At ind buf ae sc) (At ind buf ae r.2) (walkBody sk o b) (renderStmts ind r.1)
-    | .mk p cmds, sc, r, h, ind => by
+    | .mk p cmds, buf, sc, r, h, ind => by
       unfold toBody at h
-      exact body_runs sk o p cmds r.1 r.2 (walkCmds_renders cmds sc r h ind)
-  theorem walkBlock_renders : ∀ (b : Block) (sc : Scope) (r : JsStmts × Scope), toBlock ae buf b sc = some r →
+      exact body_runs sk o p cmds r.1 r.2 (walkCmds_renders cmds buf sc r h ind)
+  theorem walkBlock_renders : ∀ (b : Block) (buf : Bytes) (sc : Scope) (r : JsStmts × Scope), toBlock ae buf b sc = some r →
       ∀ ind, Runs (At ind buf ae sc) (At ind buf ae r.2) (walkBlock sk o b) (renderStmts ind r.1)
-    | .mk p cmds, sc, r, h, ind => by
+    | .mk p cmds, buf, sc, r, h, ind => by
       unfold toBlock at h
       split at h
       · rename_i rc hrc
         simp only [Option.some.injEq] at h; subst h
-        exact block_runs sk o p cmds rc.1 rc.2 (walkCmds_renders cmds sc.push rc hrc ind)
+        exact block_runs sk o p cmds rc.1 rc.2 (walkCmds_renders cmds buf sc.push rc hrc ind)
       · cases h
-  theorem walkCmds_renders : ∀ (cs : CmdList) (sc : Scope) (r : JsStmts × Scope), toCmds ae buf cs sc = some r →
+  theorem walkCmds_renders : ∀ (cs : CmdList) (buf : Bytes) (sc : Scope) (r : JsStmts × Scope), toCmds ae buf cs sc = some r →
       ∀ ind, Runs (At ind buf ae sc) (At ind buf ae r.2) (walkCmds sk o cs) (renderStmts ind r.1)
-    | .nil, sc, r, h, ind => by
+    | .nil, buf, sc, r, h, ind => by
       simp only [toCmds, Option.some.injEq] at h; subst h
       exact cmds_nil_runs sk o
-    | .cons c rest, sc, r, h, ind => by
+    | .cons c rest, buf, sc, r, h, ind => by
       unfold toCmds at h
       split at h
       · cases h
@@ -620,14 +937,14 @@ mutual
         · cases h
         · rename_i r2 h2
           simp only [Option.some.injEq] at h; subst h
-          exact cmds_cons_runs sk o c rest r1.1 r2.1 r1.2 r2.2 (walkCmd_renders c sc r1 h1 ind)
-            (walkCmds_renders rest r1.2 r2 h2 ind)
-  theorem visitConds_renders : ∀ (cs : CondList) (sc : Scope) (r : JsConds × Scope), toConds ae buf cs sc = some r →
+          exact cmds_cons_runs sk o c rest r1.1 r2.1 r1.2 r2.2 (walkCmd_renders c buf sc r1 h1 ind)
+            (walkCmds_renders rest buf r1.2 r2 h2 ind)
+  theorem visitConds_renders : ∀ (cs : CondList) (buf : Bytes) (sc : Scope) (r : JsConds × Scope), toConds ae buf cs sc = some r →
       ∀ (first : Bool) ind, Runs (At ind buf ae sc) (At ind buf ae r.2) (visitConds sk o cs first) (renderConds ind r.1 first)
-    | .nil, sc, r, h, first, ind => by
+    | .nil, buf, sc, r, h, first, ind => by
       simp only [toConds, Option.some.injEq] at h; subst h
       exact conds_nil_runs sk o first
-    | .cons p (some c) body rest, sc, r, h, first, ind => by
+    | .cons p (some c) body rest, buf, sc, r, h, first, ind => by
       unfold toConds at h
       simp only at h
       split at h
@@ -636,16 +953,16 @@ mutual
         · rename_i rr hr
           simp only [Option.some.injEq] at h; subst h
           exact conds_some_runs sk o p c body rest first j rb.1 rr.1 rb.2 rr.2 hj
-            (walkBlock_renders body sc rb hb (ind + 1)) (visitConds_renders rest rb.2 rr hr false ind)
+            (walkBlock_renders body buf sc rb hb (ind + 1)) (visitConds_renders rest buf rb.2 rr hr false ind)
         · cases h
       · cases h
-    | .cons p none body rest, sc, r, h, first, ind => by
+    | .cons p none body rest, buf, sc, r, h, first, ind => by
       unfold toConds at h
       simp only at h
       split at h
       · rename_i rb hb
         simp only [Option.some.injEq] at h; subst h
-        exact conds_else_runs sk o p body first rb.1 rb.2 (walkBlock_renders body sc rb hb (ind + 1))
+        exact conds_else_runs sk o p body first rb.1 rb.2 (walkBlock_renders body buf sc rb hb (ind + 1))
       · cases h
 end
 
@@ -695,6 +1012,9 @@ mutual
             | none => .val ([], env)
           else (Spec.Eval.loopSpec (refBlock body) env var (xs.length - 1) xs 0).bind fun out => .val (out, env)
         | _ => .error
+    | .switch _ value cases, env =>
+      (Spec.Eval.eval env value).bind fun sv => (refCases cases sv env).bind fun out => .val (out, env)
+    | .letContent _ name body, env => (refBlock body env).bind fun out => .val ([], env.bind name (.str out))
     | _, _ => .unspec
   def refBlock : Block → SEnv → Out Bytes
     | .mk _ cmds, env => refCmds cmds env
@@ -702,6 +1022,12 @@ mutual
     | .nil, _ => .val []
     | .cons c rest, env =>
       (refCmd c env).bind fun r => (refCmds rest r.2).bind fun more => .val (r.1 ++ more)
+  def refCases : CaseList → Val → SEnv → Out Bytes
+    | .nil, _, _ => .val []
+    | .cons _ values body rest, sv, env =>
+      if values.isEmpty then refBlock body env
+      else (Spec.Eval.matchAny env sv values).bind fun hit =>
+        if hit then refBlock body env else refCases rest sv env
   def refConds : CondList → SEnv → Out Bytes
     | .nil, _ => .val []
     | .cons _ cond body rest, env =>
@@ -779,7 +1105,8 @@ theorem old_plain {g : Bytes} (lo : Nat) (h : g.contains 36 = false) : Old lo g 
 
 def Named (n : Nat) (k g : Bytes) : Prop := k.contains 36 = false → ∃ m, m ≤ n ∧ g = Scope.jsname k [] m
 
-def Bounded (sc : Scope) : Prop := ∀ f ∈ sc.stack, ∀ kv ∈ f, Named sc.n kv.1 kv.2
+/-- every entry of every frame: a Soy name holds a name generated for it, and no entry is a name still to be generated -/
+def Bounded (sc : Scope) : Prop := ∀ f ∈ sc.stack, ∀ kv ∈ f, Named sc.n kv.1 kv.2 ∧ Old sc.n kv.2
 
 /-- what the walk of a template body keeps: a frame is open, and the names are bounded -/
 def ScOk (sc : Scope) : Prop := sc.stack ≠ [] ∧ Bounded sc
@@ -831,7 +1158,7 @@ theorem lookupIn_mem : ∀ (st : List Frame) (k v : Bytes), Scope.lookupIn st k 
 theorem bounded_lookup {sc : Scope} (h : Bounded sc) {k g : Bytes} (hk : k.contains 36 = false)
     (hl : sc.lookup k = some g) : ∃ m, m ≤ sc.n ∧ g = Scope.jsname k [] m := by
   obtain ⟨f, hf, hm⟩ := lookupIn_mem sc.stack k g hl
-  exact h f hf (k, g) hm hk
+  exact (h f hf (k, g) hm).1 hk
 
 theorem bounded_shape {sc : Scope} (h : Bounded sc) : SoyVerif.Lemmas.JsGenSpec.ScopeShape sc := by
   intro k g hk hl
@@ -841,7 +1168,7 @@ theorem bounded_shape {sc : Scope} (h : Bounded sc) : SoyVerif.Lemmas.JsGenSpec.
 theorem bounded_of_stack {sc sc' : Scope} (h : Bounded sc) (hs : sc'.stack = sc.stack) (hn : sc.n ≤ sc'.n) : Bounded sc' := by
   intro f hf kv hkv
   rw [hs] at hf
-  exact (h f hf kv hkv).mono hn
+  exact ⟨(h f hf kv hkv).1.mono hn, (h f hf kv hkv).2.mono hn⟩
 
 theorem scOk_push {sc : Scope} (h : Bounded sc) : ScOk sc.push := by
   refine ⟨by simp [Scope.push], ?_⟩
@@ -851,7 +1178,7 @@ theorem scOk_push {sc : Scope} (h : Bounded sc) : ScOk sc.push := by
   · cases hkv
   · exact h f hf kv hkv
 
-theorem scOk_makevar {sc : Scope} (h : ScOk sc) (x : Bytes) :
+theorem scOk_makevar {sc : Scope} (h : ScOk sc) (x : Bytes) (hx : x.contains 36 = false) :
     ScOk (sc.makevar x).2 ∧ (sc.makevar x).2.stack.tail = sc.stack.tail ∧ (sc.makevar x).2.n = sc.n + 1 := by
   obtain ⟨hne, hb⟩ := h
   cases hst : sc.stack with
@@ -859,44 +1186,158 @@ theorem scOk_makevar {sc : Scope} (h : ScOk sc) (x : Bytes) :
   | cons f st =>
     refine ⟨⟨by simp [Scope.makevar, Scope.setTop, hst], ?_⟩, by simp [Scope.makevar, Scope.setTop, hst], rfl⟩
     intro f' hf' kv hkv
+    have old : ∀ f0 ∈ sc.stack, ∀ kv0 ∈ f0, Named (sc.n + 1) kv0.1 kv0.2 ∧ Old (sc.n + 1) kv0.2 :=
+      fun f0 h0 kv0 hk0 => ⟨(hb f0 h0 kv0 hk0).1.mono (Nat.le_succ _), (hb f0 h0 kv0 hk0).2.mono (Nat.le_succ _)⟩
     simp only [Scope.makevar, Scope.setTop, hst, List.mem_cons] at hf'
     rcases hf' with rfl | hf'
     · rcases frameSet_mem f x _ kv hkv with rfl | hm
-      · intro _
-        exact ⟨sc.n + 1, Nat.le_refl _, rfl⟩
-      · exact (hb f (by simp [hst]) kv hm).mono (Nat.le_succ _)
-    · exact (hb f' (by simp [hst, hf']) kv hkv).mono (Nat.le_succ _)
+      · exact ⟨fun _ => ⟨sc.n + 1, Nat.le_refl _, rfl⟩, old_jsname hx (Or.inl rfl) (Nat.le_refl _)⟩
+      · exact old f (by simp [hst]) kv hm
+    · exact old f' (by simp [hst, hf']) kv hkv
 
-theorem scOk_pushForEach {sc : Scope} (h : ScOk sc) (v : Bytes) :
+theorem scOk_pushForEach {sc : Scope} (h : ScOk sc) (v : Bytes) (hv : v.contains 36 = false) :
     ScOk (sc.pushForEach v).2 ∧ (sc.pushForEach v).2.stack.tail = sc.stack ∧ (sc.pushForEach v).2.n = sc.n + 1 := by
   refine ⟨⟨by simp [Scope.pushForEach], ?_⟩, by simp [Scope.pushForEach], rfl⟩
   intro f hf kv hkv
   simp only [Scope.pushForEach, List.mem_cons] at hf
   rcases hf with rfl | hf
   · rcases frameSet_mem _ _ _ kv hkv with rfl | hkv
-    · intro hk; simp [Scope.kIndex] at hk
+    · exact ⟨fun hk => by simp [Scope.kIndex] at hk, old_jsname hv (Or.inr (Or.inr (Or.inr rfl))) (Nat.le_refl _)⟩
     · rcases frameSet_mem _ _ _ kv hkv with rfl | hkv
-      · intro hk; simp [Scope.kLimit] at hk
+      · exact ⟨fun hk => by simp [Scope.kLimit] at hk, old_jsname hv (Or.inr (Or.inr (Or.inl rfl))) (Nat.le_refl _)⟩
       · rcases frameSet_mem _ _ _ kv hkv with rfl | hkv
-        · intro _; exact ⟨sc.n + 1, Nat.le_refl _, rfl⟩
+        · exact ⟨fun _ => ⟨sc.n + 1, Nat.le_refl _, rfl⟩, old_jsname hv (Or.inl rfl) (Nat.le_refl _)⟩
         · cases hkv
-  · exact (h.2 f hf kv hkv).mono (Nat.le_succ _)
+  · exact ⟨(h.2 f hf kv hkv).1.mono (Nat.le_succ _), (h.2 f hf kv hkv).2.mono (Nat.le_succ _)⟩
+
+theorem scOk_pushForRange {sc : Scope} (h : ScOk sc) (v : Bytes) (hv : v.contains 36 = false) :
+    ScOk (sc.pushForRange v).2 ∧ (sc.pushForRange v).2.stack.tail = sc.stack ∧ (sc.pushForRange v).2.n = sc.n + 1 := by
+  refine ⟨⟨by simp [Scope.pushForRange], ?_⟩, by simp [Scope.pushForRange], rfl⟩
+  intro f hf kv hkv
+  simp only [Scope.pushForRange, List.mem_cons] at hf
+  rcases hf with rfl | hf
+  · rcases frameSet_mem _ _ _ kv hkv with rfl | hkv
+    · exact ⟨fun hk => by simp [Scope.kIndex] at hk, old_jsname hv (Or.inl rfl) (Nat.le_refl _)⟩
+    · rcases frameSet_mem _ _ _ kv hkv with rfl | hkv
+      · exact ⟨fun hk => by simp [Scope.kLimit] at hk, old_jsname hv (Or.inr (Or.inr (Or.inl rfl))) (Nat.le_refl _)⟩
+      · rcases frameSet_mem _ _ _ kv hkv with rfl | hkv
+        · exact ⟨fun _ => ⟨sc.n + 1, Nat.le_refl _, rfl⟩, old_jsname hv (Or.inl rfl) (Nat.le_refl _)⟩
+        · cases hkv
+  · exact ⟨(h.2 f hf kv hkv).1.mono (Nat.le_succ _), (h.2 f hf kv hkv).2.mono (Nat.le_succ _)⟩
 
 theorem scOk_of_stack {sc sc' : Scope} (h : ScOk sc) (hs : sc'.stack = sc.stack) (hn : sc.n ≤ sc'.n) : ScOk sc' :=
   ⟨by rw [hs]; exact h.1, bounded_of_stack h.2 hs hn⟩
 
+theorem scOk_bind {sc : Scope} (h : ScOk sc) (x : Bytes) (hx : x.contains 36 = false) (m : Nat) (hm : m ≤ sc.n) :
+    ScOk (sc.bind x (Scope.jsname x [] m)) ∧ (sc.bind x (Scope.jsname x [] m)).stack.tail = sc.stack.tail ∧
+      (sc.bind x (Scope.jsname x [] m)).n = sc.n := by
+  obtain ⟨hne, hb⟩ := h
+  cases hst : sc.stack with
+  | nil => exact absurd hst hne
+  | cons f st =>
+    refine ⟨⟨by simp [Scope.bind, Scope.setTop, hst], ?_⟩, by simp [Scope.bind, Scope.setTop, hst], rfl⟩
+    intro f' hf' kv hkv
+    simp only [Scope.bind, Scope.setTop, hst, List.mem_cons] at hf'
+    rcases hf' with rfl | hf'
+    · rcases frameSet_mem f x _ kv hkv with rfl | hm'
+      · exact ⟨fun _ => ⟨m, hm, rfl⟩, old_jsname hx (Or.inl rfl) hm⟩
+      · exact hb f (by simp [hst]) kv hm'
+    · exact hb f' (by simp [hst, hf']) kv hkv
+
+/-! ### the output buffer: not a local of the scope, not a name still to be generated -/
+
+def Fresh (sc : Scope) (g : Bytes) : Prop := ∀ f ∈ sc.stack, ∀ kv ∈ f, kv.2 ≠ g
+
+def GoodBuf (sc : Scope) (buf : Bytes) : Prop := Old sc.n buf ∧ Fresh sc buf
+
+theorem fresh_new {sc : Scope} (h : Bounded sc) {x u : Bytes} {m : Nat} (hx : x.contains 36 = false) (hu : IsUse u)
+    (hm : sc.n < m) : Fresh sc (Scope.jsname x u m) :=
+  fun f hf kv hkv => (h f hf kv hkv).2 x u m hx hu hm
+
+theorem goodBuf_of_stack {sc sc' : Scope} {g : Bytes} (h : GoodBuf sc g) (hs : sc'.stack = sc.stack) (hn : sc.n ≤ sc'.n) :
+    GoodBuf sc' g :=
+  ⟨h.1.mono hn, fun f hf kv hkv => h.2 f (by rw [← hs]; exact hf) kv hkv⟩
+
+theorem goodBuf_push {sc : Scope} {g : Bytes} (h : GoodBuf sc g) : GoodBuf sc.push g := by
+  refine ⟨h.1, ?_⟩
+  intro f hf kv hkv
+  simp only [Scope.push, List.mem_cons] at hf
+  rcases hf with rfl | hf
+  · cases hkv
+  · exact h.2 f hf kv hkv
+
+theorem goodBuf_plain (n : Nat) (g : Bytes) (hg : g.contains 36 = false) : GoodBuf ⟨[[]], n⟩ g := by
+  refine ⟨old_plain n hg, ?_⟩
+  intro f hf kv hkv
+  simp only [List.mem_singleton] at hf
+  subst hf
+  cases hkv
+
+theorem goodBuf_setTop {sc : Scope} {g x val : Bytes} (h : GoodBuf sc g) (hne : val ≠ g) (n' : Nat) (hn : sc.n ≤ n') :
+    GoodBuf ⟨Scope.setTop sc.stack x val, n'⟩ g := by
+  refine ⟨h.1.mono hn, ?_⟩
+  intro f hf kv hkv
+  cases hst : sc.stack with
+  | nil => simp [hst, Scope.setTop] at hf
+  | cons f0 st =>
+    simp only [hst, Scope.setTop, List.mem_cons] at hf
+    rcases hf with rfl | hf
+    · rcases frameSet_mem f0 x val kv hkv with rfl | hm
+      · exact hne
+      · exact h.2 f0 (by simp [hst]) kv hm
+    · exact h.2 f (by simp [hst, hf]) kv hkv
+
+theorem goodBuf_makevar {sc : Scope} {g : Bytes} (h : GoodBuf sc g) (x : Bytes) (hx : x.contains 36 = false) :
+    GoodBuf (sc.makevar x).2 g :=
+  goodBuf_setTop h (fun e => h.1 x [] (sc.n + 1) hx (Or.inl rfl) (Nat.lt_succ_self _) e.symm) _ (Nat.le_succ _)
+
+theorem goodBuf_pushFrame {sc : Scope} {g : Bytes} (h : GoodBuf sc g) (f0 : Frame) (hf0 : ∀ kv ∈ f0, kv.2 ≠ g) :
+    GoodBuf ⟨f0 :: sc.stack, sc.n + 1⟩ g := by
+  refine ⟨h.1.mono (Nat.le_succ _), ?_⟩
+  intro f hf kv hkv
+  simp only [List.mem_cons] at hf
+  rcases hf with rfl | hf
+  · exact hf0 kv hkv
+  · exact h.2 f hf kv hkv
+
+theorem goodBuf_pushForEach {sc : Scope} {g : Bytes} (h : GoodBuf sc g) (v : Bytes) (hv : v.contains 36 = false) :
+    GoodBuf (sc.pushForEach v).2 g := by
+  have hn : ∀ u, IsUse u → Scope.jsname v u (sc.n + 1) ≠ g := fun u hu e => h.1 v u (sc.n + 1) hv hu (Nat.lt_succ_self _) e.symm
+  refine goodBuf_pushFrame h _ ?_
+  intro kv hkv
+  rcases frameSet_mem _ _ _ kv hkv with rfl | hkv
+  · exact hn _ (Or.inr (Or.inr (Or.inr rfl)))
+  · rcases frameSet_mem _ _ _ kv hkv with rfl | hkv
+    · exact hn _ (Or.inr (Or.inr (Or.inl rfl)))
+    · rcases frameSet_mem _ _ _ kv hkv with rfl | hkv
+      · exact hn _ (Or.inl rfl)
+      · cases hkv
+
+theorem goodBuf_pushForRange {sc : Scope} {g : Bytes} (h : GoodBuf sc g) (v : Bytes) (hv : v.contains 36 = false) :
+    GoodBuf (sc.pushForRange v).2 g := by
+  have hn : ∀ u, IsUse u → Scope.jsname v u (sc.n + 1) ≠ g := fun u hu e => h.1 v u (sc.n + 1) hv hu (Nat.lt_succ_self _) e.symm
+  refine goodBuf_pushFrame h _ ?_
+  intro kv hkv
+  rcases frameSet_mem _ _ _ kv hkv with rfl | hkv
+  · exact hn _ (Or.inl rfl)
+  · rcases frameSet_mem _ _ _ kv hkv with rfl | hkv
+    · exact hn _ (Or.inr (Or.inr (Or.inl rfl)))
+    · rcases frameSet_mem _ _ _ kv hkv with rfl | hkv
+      · exact hn _ (Or.inl rfl)
+      · cases hkv
+
 /-! ### what the translation does to the scope -/
 
 section
-variable (ae : Autoescape) (buf : Bytes)
+variable (ae : Autoescape)
 
 mutual
-  theorem toCmd_scope : ∀ (c : Cmd) (sc : Scope) (r : JsStmts × Scope), toCmd ae buf c sc = some r → ScOk sc →
+  theorem toCmd_scope : ∀ (c : Cmd) (buf : Bytes) (sc : Scope) (r : JsStmts × Scope), toCmd ae buf c sc = some r → ScOk sc →
       ScOk r.2 ∧ r.2.stack.tail = sc.stack.tail ∧ sc.n ≤ r.2.n
-    | .rawText p t, sc, r, h, hs => by
+    | .rawText p t, buf, sc, r, h, hs => by
       simp only [toCmd, Option.some.injEq] at h; subst h
       exact ⟨hs, rfl, Nat.le_refl _⟩
-    | .print p arg dirs, sc, r, h, hs => by
+    | .print p arg dirs, buf, sc, r, h, hs => by
       unfold toCmd at h
       split at h
       · split at h
@@ -904,77 +1345,113 @@ mutual
           exact ⟨hs, rfl, Nat.le_refl _⟩
         · cases h
       · cases h
-    | .letValue p x e, sc, r, h, hs => by
+    | .letValue p x e, buf, sc, r, h, hs => by
       unfold toCmd at h
       split at h
       · cases h
       · split at h
         · simp only [Option.some.injEq] at h; subst h
-          obtain ⟨h1, h2, h3⟩ := scOk_makevar hs x
+          rename_i hxd _ j hj
+          obtain ⟨h1, h2, h3⟩ := scOk_makevar hs x (by simpa using hxd)
           exact ⟨h1, h2, by simp only [h3]; omega⟩
         · cases h
-    | .ifc p conds, sc, r, h, hs => by
+    | .ifc p conds, buf, sc, r, h, hs => by
       unfold toCmd at h
       split at h
       · rename_i rc hrc
         simp only [Option.some.injEq] at h; subst h
-        obtain ⟨h1, h2⟩ := toConds_scope conds sc rc hrc hs
+        obtain ⟨h1, h2⟩ := toConds_scope conds buf sc rc hrc hs
         exact ⟨⟨by rw [h1]; exact hs.1, bounded_of_stack hs.2 h1 h2⟩, by simp only [h1], h2⟩
       · cases h
-    | .msg .., _, _, h, _ => by simp [toCmd] at h
-    | .css .., _, _, h, _ => by simp [toCmd] at h
-    | .debugger .., _, _, h, _ => by simp [toCmd] at h
-    | .log .., _, _, h, _ => by simp [toCmd] at h
-    | .forc p v list body none, sc, r, h, hs => by
+    | .msg .., _, _, _, h, _ => by simp [toCmd] at h
+    | .css .., _, _, _, h, _ => by simp [toCmd] at h
+    | .debugger .., _, _, _, h, _ => by simp [toCmd] at h
+    | .log .., _, _, _, h, _ => by simp [toCmd] at h
+    | .forc p v list body none, buf, sc, r, h, hs => by
       unfold toCmd at h
-      obtain ⟨_, _, j, rbv, _, hrb, he⟩ := forcJoin_some h
-      simp only at he
-      subst he
-      obtain ⟨p1, p2, p3⟩ := scOk_pushForEach hs v
-      obtain ⟨_, b2, b3⟩ := toBody_scope body _ rbv hrb p1
-      have hst : rbv.2.pop.stack = sc.stack := by simp only [Scope.pop]; rw [b2, p2]
-      have hn : sc.n ≤ rbv.2.pop.n := by simp only [Scope.pop]; omega
-      exact ⟨scOk_of_stack hs hst hn, by rw [hst], hn⟩
-    | .forc p v list body (some ie), sc, r, h, hs => by
+      rcases loopJoin_some h with h | h
+      · obtain ⟨hv, _, j, rbv, _, hrb, he⟩ := forcJoin_some h
+        simp only at he
+        subst he
+        obtain ⟨p1, p2, p3⟩ := scOk_pushForEach hs v hv
+        obtain ⟨_, b2, b3⟩ := toBody_scope body buf _ rbv hrb p1
+        have hst : rbv.2.pop.stack = sc.stack := by simp only [Scope.pop]; rw [b2, p2]
+        have hn : sc.n ≤ rbv.2.pop.n := by simp only [Scope.pop]; omega
+        exact ⟨scOk_of_stack hs hst hn, by rw [hst], hn⟩
+      · obtain ⟨hv, _, args, l, c, jl, ji, rbv, pc, _, _, _, _, _, _, hrb, rfl⟩ := rangeJoin_some h
+        obtain ⟨p1, p2, p3⟩ := scOk_pushForRange hs v hv
+        obtain ⟨_, b2, b3⟩ := toBody_scope body buf _ rbv hrb p1
+        have hst : rbv.2.pop.stack = sc.stack := by simp only [Scope.pop]; rw [b2, p2]
+        have hn : sc.n ≤ rbv.2.pop.n := by simp only [Scope.pop]; omega
+        exact ⟨scOk_of_stack hs hst hn, by rw [hst], hn⟩
+    | .forc p v list body (some ie), buf, sc, r, h, hs => by
       unfold toCmd at h
-      obtain ⟨_, _, j, rbv, _, hrb, he⟩ := forcJoin_some h
+      have h := (loopJoin_some h).resolve_right (by intro h'; have := (rangeJoin_some h').2.1; simp at this)
+      obtain ⟨hv, _, j, rbv, _, hrb, he⟩ := forcJoin_some h
       simp only at he
       obtain ⟨re, hre, rfl⟩ := he
-      obtain ⟨p1, p2, p3⟩ := scOk_pushForEach hs v
-      obtain ⟨_, b2, b3⟩ := toBody_scope body _ rbv hrb p1
+      obtain ⟨p1, p2, p3⟩ := scOk_pushForEach hs v hv
+      obtain ⟨_, b2, b3⟩ := toBody_scope body buf _ rbv hrb p1
       have hst : rbv.2.pop.stack = sc.stack := by simp only [Scope.pop]; rw [b2, p2]
       have hn : sc.n ≤ rbv.2.pop.n := by simp only [Scope.pop]; omega
-      obtain ⟨c1, c2⟩ := toBlock_scope ie _ re hre (scOk_of_stack hs hst hn)
+      obtain ⟨c1, c2⟩ := toBlock_scope ie buf _ re hre (scOk_of_stack hs hst hn)
       exact ⟨scOk_of_stack hs (c1.trans hst) (Nat.le_trans hn c2), by simp only [c1, hst], Nat.le_trans hn c2⟩
-    | .switch .., _, _, h, _ => by simp [toCmd] at h
-    | .call .., _, _, h, _ => by simp [toCmd] at h
-    | .letContent .., _, _, h, _ => by simp [toCmd] at h
-    | .headerParam .., _, _, h, _ => by simp [toCmd] at h
-    | .namespace .., _, _, h, _ => by simp [toCmd] at h
-    | .template .., _, _, h, _ => by simp [toCmd] at h
-    | .soyDoc .., _, _, h, _ => by simp [toCmd] at h
-  theorem toBody_scope : ∀ (b : Block) (sc : Scope) (r : JsStmts × Scope), toBody ae buf b sc = some r → ScOk sc →
-      ScOk r.2 ∧ r.2.stack.tail = sc.stack.tail ∧ sc.n ≤ r.2.n
-    | .mk p cmds, sc, r, h, hs => by
-      unfold toBody at h
-      exact toCmds_scope cmds sc r h hs
-  /-- a block leaves the stack as it found it; only the counter moves -/
-  theorem toBlock_scope : ∀ (b : Block) (sc : Scope) (r : JsStmts × Scope), toBlock ae buf b sc = some r → ScOk sc →
+    | .switch p value cases, buf, sc, r, h, hs => by
+      unfold toCmd at h
+      split at h
+      · rename_i j rc hj hrc
+        simp only [Option.some.injEq] at h; subst h
+        obtain ⟨h1, h2⟩ := toCases_scope cases buf sc rc hrc hs
+        exact ⟨scOk_of_stack hs h1 h2, by simp only [h1], h2⟩
+      · cases h
+    | .call .., _, _, _, h, _ => by simp [toCmd] at h
+    | .letContent p name body, buf, sc, r, h, hs => by
+      unfold toCmd at h
+      obtain ⟨hname, rbv, hrb, rfl⟩ := letJoin_some h
+      have hs' : ScOk (sc.genname name).2 := scOk_of_stack hs rfl (Nat.le_succ _)
+      obtain ⟨a1, a2⟩ := toBlock_scope body _ _ rbv hrb hs'
+      have a2' : sc.n + 1 ≤ rbv.2.n := a2
+      obtain ⟨b1, b2, b3⟩ := scOk_bind (scOk_of_stack hs' a1 a2) name hname (sc.n + 1) a2'
+      exact ⟨b1, b2.trans (by rw [a1]; rfl), Nat.le_trans (Nat.le_succ _) a2'⟩
+    | .headerParam .., _, _, _, h, _ => by simp [toCmd] at h
+    | .namespace .., _, _, _, h, _ => by simp [toCmd] at h
+    | .template .., _, _, _, h, _ => by simp [toCmd] at h
+    | .soyDoc .., _, _, _, h, _ => by simp [toCmd] at h
+  theorem toCases_scope : ∀ (cs : CaseList) (buf : Bytes) (sc : Scope) (r : JsCases × Scope), toCases ae buf cs sc = some r → ScOk sc →
       r.2.stack = sc.stack ∧ sc.n ≤ r.2.n
-    | .mk p cmds, sc, r, h, hs => by
+    | .nil, buf, sc, r, h, hs => by
+      simp only [toCases, Option.some.injEq] at h; subst h
+      exact ⟨rfl, Nat.le_refl _⟩
+    | .cons p values body rest, buf, sc, r, h, hs => by
+      unfold toCases at h
+      obtain ⟨rbv, hrb, hc⟩ := caseJoin_some h
+      obtain ⟨a1, a2⟩ := toBlock_scope body buf sc rbv hrb hs
+      rcases hc with ⟨_, _, rfl⟩ | ⟨_, js, rr, _, hrr, rfl⟩
+      · exact ⟨a1, a2⟩
+      · obtain ⟨b1, b2⟩ := toCases_scope rest buf rbv.2 rr hrr (scOk_of_stack hs a1 a2)
+        exact ⟨b1.trans a1, Nat.le_trans a2 b2⟩
+  theorem toBody_scope : ∀ (b : Block) (buf : Bytes) (sc : Scope) (r : JsStmts × Scope), toBody ae buf b sc = some r → ScOk sc →
+      ScOk r.2 ∧ r.2.stack.tail = sc.stack.tail ∧ sc.n ≤ r.2.n
+    | .mk p cmds, buf, sc, r, h, hs => by
+      unfold toBody at h
+      exact toCmds_scope cmds buf sc r h hs
+  /-- a block leaves the stack as it found it; only the counter moves -/
+  theorem toBlock_scope : ∀ (b : Block) (buf : Bytes) (sc : Scope) (r : JsStmts × Scope), toBlock ae buf b sc = some r → ScOk sc →
+      r.2.stack = sc.stack ∧ sc.n ≤ r.2.n
+    | .mk p cmds, buf, sc, r, h, hs => by
       unfold toBlock at h
       split at h
       · rename_i rc hrc
         simp only [Option.some.injEq] at h; subst h
-        obtain ⟨_, h2, h3⟩ := toCmds_scope cmds sc.push rc hrc (scOk_push hs.2)
+        obtain ⟨_, h2, h3⟩ := toCmds_scope cmds buf sc.push rc hrc (scOk_push hs.2)
         exact ⟨by simpa [Scope.pop, Scope.push] using h2, by simpa [Scope.pop, Scope.push] using h3⟩
       · cases h
-  theorem toCmds_scope : ∀ (cs : CmdList) (sc : Scope) (r : JsStmts × Scope), toCmds ae buf cs sc = some r → ScOk sc →
+  theorem toCmds_scope : ∀ (cs : CmdList) (buf : Bytes) (sc : Scope) (r : JsStmts × Scope), toCmds ae buf cs sc = some r → ScOk sc →
       ScOk r.2 ∧ r.2.stack.tail = sc.stack.tail ∧ sc.n ≤ r.2.n
-    | .nil, sc, r, h, hs => by
+    | .nil, buf, sc, r, h, hs => by
       simp only [toCmds, Option.some.injEq] at h; subst h
       exact ⟨hs, rfl, Nat.le_refl _⟩
-    | .cons c rest, sc, r, h, hs => by
+    | .cons c rest, buf, sc, r, h, hs => by
       unfold toCmds at h
       split at h
       · cases h
@@ -983,15 +1460,15 @@ mutual
         · cases h
         · rename_i r2 h2
           simp only [Option.some.injEq] at h; subst h
-          obtain ⟨a1, a2, a3⟩ := toCmd_scope c sc r1 h1 hs
-          obtain ⟨b1, b2, b3⟩ := toCmds_scope rest r1.2 r2 h2 a1
+          obtain ⟨a1, a2, a3⟩ := toCmd_scope c buf sc r1 h1 hs
+          obtain ⟨b1, b2, b3⟩ := toCmds_scope rest buf r1.2 r2 h2 a1
           exact ⟨b1, b2.trans a2, Nat.le_trans a3 b3⟩
-  theorem toConds_scope : ∀ (cs : CondList) (sc : Scope) (r : JsConds × Scope), toConds ae buf cs sc = some r → ScOk sc →
+  theorem toConds_scope : ∀ (cs : CondList) (buf : Bytes) (sc : Scope) (r : JsConds × Scope), toConds ae buf cs sc = some r → ScOk sc →
       r.2.stack = sc.stack ∧ sc.n ≤ r.2.n
-    | .nil, sc, r, h, hs => by
+    | .nil, buf, sc, r, h, hs => by
       simp only [toConds, Option.some.injEq] at h; subst h
       exact ⟨rfl, Nat.le_refl _⟩
-    | .cons p (some c) body rest, sc, r, h, hs => by
+    | .cons p (some c) body rest, buf, sc, r, h, hs => by
       unfold toConds at h
       simp only at h
       split at h
@@ -999,21 +1476,131 @@ mutual
         split at h
         · rename_i rr hr
           simp only [Option.some.injEq] at h; subst h
-          obtain ⟨a1, a2⟩ := toBlock_scope body sc rb hb hs
+          obtain ⟨a1, a2⟩ := toBlock_scope body buf sc rb hb hs
           have hs1 : ScOk rb.2 := ⟨by rw [a1]; exact hs.1, bounded_of_stack hs.2 a1 a2⟩
-          obtain ⟨b1, b2⟩ := toConds_scope rest rb.2 rr hr hs1
+          obtain ⟨b1, b2⟩ := toConds_scope rest buf rb.2 rr hr hs1
           exact ⟨b1.trans a1, Nat.le_trans a2 b2⟩
         · cases h
       · cases h
-    | .cons p none body rest, sc, r, h, hs => by
+    | .cons p none body rest, buf, sc, r, h, hs => by
       unfold toConds at h
       simp only at h
       split at h
       · rename_i rb hb
         simp only [Option.some.injEq] at h; subst h
-        exact toBlock_scope body sc rb hb hs
+        exact toBlock_scope body buf sc rb hb hs
       · cases h
 end
+
+end
+
+section
+variable (ae : Autoescape)
+
+mutual
+  /-- a buffer that is good for the scope stays good along the translation -/
+  theorem toCmd_good : ∀ (c : Cmd) (buf : Bytes) (sc : Scope) (r : JsStmts × Scope), toCmd ae buf c sc = some r → ScOk sc →
+      ∀ g, GoodBuf sc g → GoodBuf r.2 g
+    | .rawText p t, buf, sc, r, h, hs, g, hg => by
+      simp only [toCmd, Option.some.injEq] at h; subst h; exact hg
+    | .print p arg dirs, buf, sc, r, h, hs, g, hg => by
+      unfold toCmd at h
+      split at h
+      · split at h
+        · simp only [Option.some.injEq] at h; subst h; exact hg
+        · cases h
+      · cases h
+    | .letValue p x e, buf, sc, r, h, hs, g, hg => by
+      unfold toCmd at h
+      split at h
+      · cases h
+      · rename_i hxd
+        split at h
+        · simp only [Option.some.injEq] at h; subst h
+          exact goodBuf_makevar hg x (by simpa using hxd)
+        · cases h
+    | .ifc p conds, buf, sc, r, h, hs, g, hg => by
+      have := toCmd_scope ae (.ifc p conds) buf sc r h hs
+      unfold toCmd at h
+      split at h
+      · rename_i rc hrc
+        simp only [Option.some.injEq] at h; subst h
+        obtain ⟨h1, h2⟩ := toConds_scope ae conds buf sc rc hrc hs
+        exact goodBuf_of_stack hg h1 h2
+      · cases h
+    | .switch p value cases, buf, sc, r, h, hs, g, hg => by
+      unfold toCmd at h
+      split at h
+      · rename_i j rc hj hrc
+        simp only [Option.some.injEq] at h; subst h
+        obtain ⟨h1, h2⟩ := toCases_scope ae cases buf sc rc hrc hs
+        exact goodBuf_of_stack hg h1 h2
+      · cases h
+    | .forc p v list body ie, buf, sc, r, h, hs, g, hg => by
+      -- a loop restores the stack
+      have hsc := toCmd_scope ae (.forc p v list body ie) buf sc r h hs
+      unfold toCmd at h
+      have hst : r.2.stack = sc.stack := by
+        rcases loopJoin_some h with h | h
+        · obtain ⟨hv, _, j, rbv, _, hrb, he⟩ := forcJoin_some h
+          obtain ⟨p1, p2, _⟩ := scOk_pushForEach hs v hv
+          obtain ⟨_, b2, _⟩ := toBody_scope ae body buf _ rbv hrb p1
+          have hst : rbv.2.pop.stack = sc.stack := by simp only [Scope.pop]; rw [b2, p2]
+          cases ie with
+          | none => simp only at he; subst he; exact hst
+          | some b =>
+            simp only at he
+            obtain ⟨re, hre, rfl⟩ := he
+            obtain ⟨_, _, p3⟩ := scOk_pushForEach hs v hv
+            obtain ⟨_, _, b3⟩ := toBody_scope ae body buf _ rbv hrb p1
+            have hn : sc.n ≤ rbv.2.pop.n := by simp only [Scope.pop]; omega
+            obtain ⟨c1, _⟩ := toBlock_scope ae b buf _ re hre (scOk_of_stack hs hst hn)
+            exact c1.trans hst
+        · obtain ⟨hv, _, args, l, c, jl, ji, rbv, pc, _, _, _, _, _, _, hrb, rfl⟩ := rangeJoin_some h
+          obtain ⟨p1, p2, _⟩ := scOk_pushForRange hs v hv
+          obtain ⟨_, b2, _⟩ := toBody_scope ae body buf _ rbv hrb p1
+          simp only [Scope.pop]; rw [b2, p2]
+      exact goodBuf_of_stack hg hst hsc.2.2
+    | .letContent p name body, buf, sc, r, h, hs, g, hg => by
+      unfold toCmd at h
+      obtain ⟨hname, rbv, hrb, rfl⟩ := letJoin_some h
+      have hs' : ScOk (sc.genname name).2 := scOk_of_stack hs rfl (Nat.le_succ _)
+      obtain ⟨a1, a2⟩ := toBlock_scope ae body _ _ rbv hrb hs'
+      have a2' : sc.n ≤ rbv.2.n := Nat.le_trans (Nat.le_succ _) a2
+      have hg' : GoodBuf rbv.2 g := goodBuf_of_stack hg a1 a2'
+      exact goodBuf_setTop hg' (fun e => hg.1 name [] (sc.n + 1) hname (Or.inl rfl) (Nat.lt_succ_self _) e.symm) _ (Nat.le_refl _)
+    | .msg .., _, _, _, h, _, _, _ => by simp [toCmd] at h
+    | .css .., _, _, _, h, _, _, _ => by simp [toCmd] at h
+    | .debugger .., _, _, _, h, _, _, _ => by simp [toCmd] at h
+    | .log .., _, _, _, h, _, _, _ => by simp [toCmd] at h
+    | .call .., _, _, _, h, _, _, _ => by simp [toCmd] at h
+    | .headerParam .., _, _, _, h, _, _, _ => by simp [toCmd] at h
+    | .namespace .., _, _, _, h, _, _, _ => by simp [toCmd] at h
+    | .template .., _, _, _, h, _, _, _ => by simp [toCmd] at h
+    | .soyDoc .., _, _, _, h, _, _, _ => by simp [toCmd] at h
+  theorem toCmds_good : ∀ (cs : CmdList) (buf : Bytes) (sc : Scope) (r : JsStmts × Scope), toCmds ae buf cs sc = some r → ScOk sc →
+      ∀ g, GoodBuf sc g → GoodBuf r.2 g
+    | .nil, buf, sc, r, h, hs, g, hg => by
+      simp only [toCmds, Option.some.injEq] at h; subst h; exact hg
+    | .cons c rest, buf, sc, r, h, hs, g, hg => by
+      unfold toCmds at h
+      split at h
+      · cases h
+      · rename_i r1 h1
+        split at h
+        · cases h
+        · rename_i r2 h2
+          simp only [Option.some.injEq] at h; subst h
+          obtain ⟨a1, _, _⟩ := toCmd_scope ae c buf sc r1 h1 hs
+          exact toCmds_good rest buf r1.2 r2 h2 a1 g (toCmd_good c buf sc r1 h1 hs g hg)
+end
+
+theorem toBody_good (b : Block) (buf : Bytes) (sc : Scope) (r : JsStmts × Scope) (h : toBody ae buf b sc = some r) (hs : ScOk sc)
+    (g : Bytes) (hg : GoodBuf sc g) : GoodBuf r.2 g := by
+  cases b with
+  | mk p cmds =>
+    unfold toBody at h
+    exact toCmds_good ae cmds buf sc r h hs g hg
 
 end
 
@@ -1053,7 +1640,7 @@ theorem bufIs_setBuf (buf : Bytes) (jenv : JEnv) (t : Bytes) : BufIs buf (setLoc
 /-- the relation survives everything `Keeps` allows, in every scope with the same frames -/
 theorem envRel_keep {buf : Bytes} {sc sc' : Scope} {env : SEnv} {jenv jenv' : JEnv} {lo : Nat}
     (hrel : EnvRel sc env jenv) (hk : Keeps buf lo jenv jenv') (hb : Bounded sc) (hlo : sc.n ≤ lo)
-    (hbuf : buf.contains 36 = false) (hst : sc'.stack = sc.stack) : EnvRel sc' env jenv' := by
+    (hfr : Fresh sc buf) (hst : sc'.stack = sc.stack) : EnvRel sc' env jenv' := by
   intro k hkij hkd
   have hl : sc'.lookup k = sc.lookup k := by simp [Scope.lookup, hst]
   rw [hl]
@@ -1065,14 +1652,12 @@ theorem envRel_keep {buf : Bytes} {sc sc' : Scope} {env : SEnv} {jenv jenv' : JE
   | some g =>
     simp only [hg] at hr ⊢
     obtain ⟨kv, hfind, hkv⟩ := hr
+    obtain ⟨f0, hf0, hm⟩ := lookupIn_mem sc.stack k g hg
     obtain ⟨m0, hm0, rfl⟩ := bounded_lookup hb hkd hg
     refine ⟨kv, ?_, hkv⟩
     rw [hk.2.2 _ ?_ ?_]
     · exact hfind
-    · intro e
-      have := jsname_dollar k [] m0
-      rw [e, hbuf] at this
-      cases this
+    · exact hfr f0 hf0 _ hm
     · exact old_jsname hkd (Or.inl rfl) (by omega)
 
 theorem envRel_stack {sc sc' : Scope} {env : SEnv} {jenv : JEnv} (hrel : EnvRel sc env jenv) (hst : sc'.stack = sc.stack) :
@@ -1171,34 +1756,38 @@ variable (F : Bytes → List Expr → JVal → JOut) (ae : Autoescape) (buf : By
 
 def CmdOk (c : Cmd) : Prop :=
   ∀ (fuel : Nat) (sc : Scope) (r : JsStmts × Scope) (env : SEnv) (jenv jenv' : JEnv) (out : Bytes),
-    toCmd ae buf c sc = some r → ScOk sc → EnvRel sc env jenv → BufIs buf jenv out →
+    toCmd ae buf c sc = some r → ScOk sc → GoodBuf sc buf → EnvRel sc env jenv → BufIs buf jenv out →
     execStmts F fuel r.1 jenv = .ok jenv' →
     ∃ text env', refCmd F ae c env = .val (text, env') ∧ EnvRel r.2 env' jenv' ∧ BufIs buf jenv' (out ++ text) ∧
       Keeps buf sc.n jenv jenv'
 
 def BlockOk (b : Block) : Prop :=
   ∀ (fuel : Nat) (sc : Scope) (r : JsStmts × Scope) (env : SEnv) (jenv jenv' : JEnv) (out : Bytes),
-    toBlock ae buf b sc = some r → ScOk sc → EnvRel sc env jenv → BufIs buf jenv out →
+    toBlock ae buf b sc = some r → ScOk sc → GoodBuf sc buf → EnvRel sc env jenv → BufIs buf jenv out →
     execStmts F fuel r.1 jenv = .ok jenv' →
     ∃ text, refBlock F ae b env = .val text ∧ BufIs buf jenv' (out ++ text) ∧ Keeps buf sc.n jenv jenv'
 
 def CmdsOk (cs : CmdList) : Prop :=
   ∀ (fuel : Nat) (sc : Scope) (r : JsStmts × Scope) (env : SEnv) (jenv jenv' : JEnv) (out : Bytes),
-    toCmds ae buf cs sc = some r → ScOk sc → EnvRel sc env jenv → BufIs buf jenv out →
+    toCmds ae buf cs sc = some r → ScOk sc → GoodBuf sc buf → EnvRel sc env jenv → BufIs buf jenv out →
     execStmts F fuel r.1 jenv = .ok jenv' →
     ∃ text, refCmds F ae cs env = .val text ∧ BufIs buf jenv' (out ++ text) ∧ Keeps buf sc.n jenv jenv'
 
 def CondsOk (cs : CondList) : Prop :=
   ∀ (fuel : Nat) (sc : Scope) (r : JsConds × Scope) (env : SEnv) (jenv jenv' : JEnv) (out : Bytes),
-    toConds ae buf cs sc = some r → ScOk sc → EnvRel sc env jenv → BufIs buf jenv out →
+    toConds ae buf cs sc = some r → ScOk sc → GoodBuf sc buf → EnvRel sc env jenv → BufIs buf jenv out →
     execConds F fuel r.1 jenv = .ok jenv' →
     ∃ text, refConds F ae cs env = .val text ∧ BufIs buf jenv' (out ++ text) ∧ Keeps buf sc.n jenv jenv'
 
-variable (hbuf : buf.contains 36 = false)
-include hbuf
+def CasesOk (cs : CaseList) : Prop :=
+  ∀ (fuel : Nat) (sc : Scope) (r : JsCases × Scope) (env : SEnv) (jenv jenv' : JEnv) (out : Bytes) (sv : Val) (jv : JVal),
+    toCases ae buf cs sc = some r → ScOk sc → GoodBuf sc buf → EnvRel sc env jenv → BufIs buf jenv out → toJsV sv = some jv →
+    execCases F fuel r.1 jv jenv = .ok jenv' →
+    ∃ text, refCases F ae cs sv env = .val text ∧ BufIs buf jenv' (out ++ text) ∧ Keeps buf sc.n jenv jenv'
+
 
 theorem rawText_ok (p : Nat) (t : Bytes) : CmdOk F ae buf (.rawText p t) := by
-  intro fuel sc r env jenv jenv' out h hs hrel hb hx
+  intro fuel sc r env jenv jenv' out h hs hg hrel hb hx
   simp only [toCmd, Option.some.injEq] at h; subst h
   rw [execStmts_one] at hx
   simp only [execStmt] at hx
@@ -1206,10 +1795,10 @@ theorem rawText_ok (p : Nat) (t : Bytes) : CmdOk F ae buf (.rawText p t) := by
   simp only [toStr?, Option.some.injEq] at hs'
   subst hs'
   refine ⟨t, env, by simp [refCmd], ?_, bufIs_setBuf _ _ _, keeps_setBuf _ _ _ _⟩
-  exact envRel_keep hrel (keeps_setBuf buf sc.n jenv _) hs.2 (Nat.le_refl _) hbuf rfl
+  exact envRel_keep hrel (keeps_setBuf buf sc.n jenv _) hs.2 (Nat.le_refl _) hg.2 rfl
 
 theorem print_ok (p : Nat) (arg : Expr) (dirs : List Directive) : CmdOk F ae buf (.print p arg dirs) := by
-  intro fuel sc r env jenv jenv' out h hs hrel hb hx
+  intro fuel sc r env jenv jenv' out h hs hg hrel hb hx
   unfold toCmd at h
   split at h
   · rename_i hok
@@ -1227,12 +1816,12 @@ theorem print_ok (p : Nat) (arg : Expr) (dirs : List Directive) : CmdOk F ae buf
       rw [hrv] at hgo
       refine ⟨s, env, ?_, ?_, bufIs_setBuf _ _ _, keeps_setBuf _ _ _ _⟩
       · simp only [refCmd, hv, Spec.Eval.Out.bind, refPrint, hvj, hgo, hs']
-      · exact envRel_keep hrel (keeps_setBuf buf sc.n jenv _) hs.2 (Nat.le_refl _) hbuf rfl
+      · exact envRel_keep hrel (keeps_setBuf buf sc.n jenv _) hs.2 (Nat.le_refl _) hg.2 rfl
     · cases h
   · cases h
 
 theorem letValue_ok (p : Nat) (x : Bytes) (e : Expr) : CmdOk F ae buf (.letValue p x e) := by
-  intro fuel sc r env jenv jenv' out h hs hrel hb hx
+  intro fuel sc r env jenv jenv' out h hs hgood hrel hb hx
   unfold toCmd at h
   split at h
   · cases h
@@ -1252,11 +1841,8 @@ theorem letValue_ok (p : Nat) (x : Bytes) (e : Expr) : CmdOk F ae buf (.letValue
       | nil => exact absurd hst hne
       | cons f st =>
         have hg : (sc.makevar x).1 = Scope.jsname x [] (sc.n + 1) := rfl
-        have hgb : (sc.makevar x).1 ≠ buf := by
-          intro e'
-          have := jsname_dollar x [] (sc.n + 1)
-          rw [← hg, e', hbuf] at this
-          cases this
+        have hgb : (sc.makevar x).1 ≠ buf := fun e' =>
+          hgood.1 x [] (sc.n + 1) hxd' (Or.inl rfl) (Nat.lt_succ_self _) e'.symm
         refine ⟨[], env.bind x v, by simp [refCmd, hv, Spec.Eval.Out.bind], ?_, ?_, ?_⟩
         · exact C04c.envRel_let sc env jenv f st hst (bounded_shape hbd) x hxd' v jv hrel hvj
         · unfold BufIs
@@ -1268,26 +1854,24 @@ theorem letValue_ok (p : Nat) (x : Bytes) (e : Expr) : CmdOk F ae buf (.letValue
     · cases h
 
 theorem ifc_ok (p : Nat) (conds : CondList) (ih : CondsOk F ae buf conds) : CmdOk F ae buf (.ifc p conds) := by
-  intro fuel sc r env jenv jenv' out h hs hrel hb hx
+  intro fuel sc r env jenv jenv' out h hs hg hrel hb hx
   unfold toCmd at h
   split at h
   · rename_i rc hrc
     simp only [Option.some.injEq] at h; subst h
     rw [execStmts_one] at hx
     simp only [execStmt] at hx
-    obtain ⟨text, ht, hb', hk⟩ := ih fuel sc rc env jenv jenv' out hrc hs hrel hb hx
-    obtain ⟨h1, _⟩ := toConds_scope ae buf conds sc rc hrc hs
+    obtain ⟨text, ht, hb', hk⟩ := ih fuel sc rc env jenv jenv' out hrc hs hg hrel hb hx
+    obtain ⟨h1, _⟩ := toConds_scope ae conds buf sc rc hrc hs
     exact ⟨text, env, by simp [refCmd, ht, Spec.Eval.Out.bind],
-      envRel_keep hrel hk hs.2 (Nat.le_refl _) hbuf h1, hb', hk⟩
+      envRel_keep hrel hk hs.2 (Nat.le_refl _) hg.2 h1, hb', hk⟩
   · cases h
 
-omit hbuf in
 theorem lookup_push (sc : Scope) (k : Bytes) : sc.push.lookup k = sc.lookup k := by
   simp [Scope.push, Scope.lookup, Scope.lookupIn, frameGet?]
 
-omit hbuf in
 theorem block_ok (p : Nat) (cmds : CmdList) (ih : CmdsOk F ae buf cmds) : BlockOk F ae buf (.mk p cmds) := by
-  intro fuel sc r env jenv jenv' out h hs hrel hb hx
+  intro fuel sc r env jenv jenv' out h hs hg hrel hb hx
   unfold toBlock at h
   split at h
   · rename_i rc hrc
@@ -1296,22 +1880,20 @@ theorem block_ok (p : Nat) (cmds : CmdList) (ih : CmdsOk F ae buf cmds) : BlockO
       intro k hk hd
       rw [lookup_push]
       exact hrel k hk hd
-    obtain ⟨text, ht, hb', hk⟩ := ih fuel sc.push rc env jenv jenv' out hrc (scOk_push hs.2) hrel' hb hx
+    obtain ⟨text, ht, hb', hk⟩ := ih fuel sc.push rc env jenv jenv' out hrc (scOk_push hs.2) (goodBuf_push hg) hrel' hb hx
     exact ⟨text, by simp only [refBlock]; exact ht, hb', hk⟩
   · cases h
 
-omit hbuf in
 theorem cmds_nil_ok : CmdsOk F ae buf .nil := by
-  intro fuel sc r env jenv jenv' out h hs hrel hb hx
+  intro fuel sc r env jenv jenv' out h hs hg hrel hb hx
   simp only [toCmds, Option.some.injEq] at h; subst h
   simp only [execStmts, SRes.ok.injEq] at hx
   subst hx
   exact ⟨[], by simp [refCmds], by simpa using hb, Keeps.refl _ _ _⟩
 
-omit hbuf in
 theorem cmds_cons_ok (c : Cmd) (rest : CmdList) (ih1 : CmdOk F ae buf c) (ih2 : CmdsOk F ae buf rest) :
     CmdsOk F ae buf (.cons c rest) := by
-  intro fuel sc r env jenv jenv' out h hs hrel hb hx
+  intro fuel sc r env jenv jenv' out h hs hg hrel hb hx
   unfold toCmds at h
   split at h
   · cases h
@@ -1322,24 +1904,22 @@ theorem cmds_cons_ok (c : Cmd) (rest : CmdList) (ih1 : CmdOk F ae buf c) (ih2 : 
       simp only [Option.some.injEq] at h; subst h
       rw [execStmts_append] at hx
       obtain ⟨jenv1, hx1, hx2⟩ := sres_bind_ok hx
-      obtain ⟨t1, env1, ht1, hrel1, hb1, hk1⟩ := ih1 fuel sc r1 env jenv jenv1 out h1 hs hrel hb hx1
-      obtain ⟨a1, _, a3⟩ := toCmd_scope ae buf c sc r1 h1 hs
-      obtain ⟨t2, ht2, hb2, hk2⟩ := ih2 fuel r1.2 r2 env1 jenv1 jenv' (out ++ t1) h2 a1 hrel1 hb1 hx2
+      obtain ⟨t1, env1, ht1, hrel1, hb1, hk1⟩ := ih1 fuel sc r1 env jenv jenv1 out h1 hs hg hrel hb hx1
+      obtain ⟨a1, _, a3⟩ := toCmd_scope ae c buf sc r1 h1 hs
+      obtain ⟨t2, ht2, hb2, hk2⟩ := ih2 fuel r1.2 r2 env1 jenv1 jenv' (out ++ t1) h2 a1 (toCmd_good ae c buf sc r1 h1 hs buf hg) hrel1 hb1 hx2
       refine ⟨t1 ++ t2, ?_, by rw [← List.append_assoc]; exact hb2, hk1.trans hk2 a3⟩
       simp [refCmds, ht1, ht2, Spec.Eval.Out.bind]
 
-omit hbuf in
 theorem conds_nil_ok : CondsOk F ae buf .nil := by
-  intro fuel sc r env jenv jenv' out h hs hrel hb hx
+  intro fuel sc r env jenv jenv' out h hs hg hrel hb hx
   simp only [toConds, Option.some.injEq] at h; subst h
   simp only [execConds, SRes.ok.injEq] at hx
   subst hx
   exact ⟨[], by simp [refConds], by simpa using hb, Keeps.refl _ _ _⟩
 
-omit hbuf in
 theorem conds_some_ok (p : Nat) (c : Expr) (body : Block) (rest : CondList) (ih1 : BlockOk F ae buf body)
     (ih2 : CondsOk F ae buf rest) : CondsOk F ae buf (.cons p (some c) body rest) := by
-  intro fuel sc r env jenv jenv' out h hs hrel hb hx
+  intro fuel sc r env jenv jenv' out h hs hg hrel hb hx
   unfold toConds at h
   simp only at h
   split at h
@@ -1353,64 +1933,171 @@ theorem conds_some_ok (p : Nat) (c : Expr) (body : Block) (rest : CondList) (ih1
       have htr := C04c.truthy_toBoolean v jv hvj
       by_cases hc : toBoolean jv = true
       · simp only [hc, if_true] at hx
-        obtain ⟨text, ht, hb', hk⟩ := ih1 fuel sc rb env jenv jenv' out hbk hs hrel hb hx
+        obtain ⟨text, ht, hb', hk⟩ := ih1 fuel sc rb env jenv jenv' out hbk hs hg hrel hb hx
         refine ⟨text, ?_, hb', hk⟩
         simp [refConds, hv, Spec.Eval.Out.bind, htr, hc, ht]
       · simp only [hc, Bool.false_eq_true, if_false] at hx
-        obtain ⟨a1, a2⟩ := toBlock_scope ae buf body sc rb hbk hs
+        obtain ⟨a1, a2⟩ := toBlock_scope ae body buf sc rb hbk hs
         have hs1 : ScOk rb.2 := ⟨by rw [a1]; exact hs.1, bounded_of_stack hs.2 a1 a2⟩
-        obtain ⟨text, ht, hb', hk⟩ := ih2 fuel rb.2 rr env jenv jenv' out hr hs1 (envRel_stack hrel a1) hb hx
+        obtain ⟨text, ht, hb', hk⟩ := ih2 fuel rb.2 rr env jenv jenv' out hr hs1 (goodBuf_of_stack hg a1 a2) (envRel_stack hrel a1) hb hx
         refine ⟨text, ?_, hb', hk.mono a2⟩
         simp [refConds, hv, Spec.Eval.Out.bind, htr, hc, ht]
     · cases h
   · cases h
 
-omit hbuf in
 theorem conds_else_ok (p : Nat) (body : Block) (rest : CondList) (ih1 : BlockOk F ae buf body) :
     CondsOk F ae buf (.cons p none body rest) := by
-  intro fuel sc r env jenv jenv' out h hs hrel hb hx
+  intro fuel sc r env jenv jenv' out h hs hg hrel hb hx
   unfold toConds at h
   simp only at h
   split at h
   · rename_i rb hbk
     simp only [Option.some.injEq] at h; subst h
     simp only [execConds] at hx
-    obtain ⟨text, ht, hb', hk⟩ := ih1 fuel sc rb env jenv jenv' out hbk hs hrel hb hx
+    obtain ⟨text, ht, hb', hk⟩ := ih1 fuel sc rb env jenv jenv' out hbk hs hg hrel hb hx
     exact ⟨text, by simp only [refConds]; exact ht, hb', hk⟩
+  · cases h
+
+/-! ### switch -/
+
+/-- `===` on images is the specification's equality -/
+theorem strictEq_corr {a b : Val} {ja jb : JVal} {c : Bool} (ha : toJsV a = some ja) (hb : toJsV b = some jb)
+    (h : strictEq ja jb = some c) : Spec.Eval.equalsV a b = .val c := by
+  cases ja <;> cases jb <;> simp only [strictEq, Option.some.injEq, reduceCtorEq] at h
+  all_goals subst h
+  all_goals
+    first
+      | (have := C04c.toJsV_null ha; subst this)
+      | (have := C04c.toJsV_bool ha; subst this)
+      | (obtain ⟨rfl, _⟩ := C04c.toJsV_num ha)
+      | (have := C04c.toJsV_str ha; subst this)
+  all_goals
+    first
+      | (have := C04c.toJsV_null hb; subst this)
+      | (have := C04c.toJsV_bool hb; subst this)
+      | (obtain ⟨rfl, _⟩ := C04c.toJsV_num hb)
+      | (have := C04c.toJsV_str hb; subst this)
+  all_goals simp [Spec.Eval.equalsV]
+
+/-- the labels: `matchLabels` on the translation is `matchAny` -/
+theorem matchLabels_corr {sc : Scope} {env : SEnv} {jenv : JEnv} (hrel : EnvRel sc env jenv) {sv : Val} {jv : JVal}
+    (hsv : toJsV sv = some jv) : ∀ (values : List Expr) (js : List JsExpr) (b : Bool), astList sc values = some js →
+    matchLabels jenv jv js = some (.inr b) → Spec.Eval.matchAny env sv values = .val b
+  | [], js, b, h, hm => by
+    simp only [astList, Option.some.injEq] at h; subst h
+    simp only [matchLabels, Option.some.injEq, Sum.inr.injEq] at hm
+    subst hm
+    rfl
+  | v :: r, js, b, h, hm => by
+    unfold astList at h
+    cases hj : toAst sc v with
+    | none => simp [hj] at h
+    | some j =>
+      cases hr : astList sc r with
+      | none => simp [hj, hr] at h
+      | some jr =>
+        simp only [hj, hr, Option.some.injEq] at h; subst h
+        unfold matchLabels at hm
+        cases hw : eval jenv j with
+        | val w =>
+          simp only [hw] at hm
+          obtain ⟨vw, hvw, hvwj⟩ := C04c.gen_correct_refs_partial sc env jenv hrel v j w hj hw
+          cases hse : strictEq jv w with
+          | none => simp [hse] at hm
+          | some c =>
+            have heq := strictEq_corr hsv hvwj hse
+            cases c with
+            | true =>
+              simp only [hse, Option.some.injEq, Sum.inr.injEq] at hm
+              subst hm
+              simp [Spec.Eval.matchAny, hvw, heq, Spec.Eval.Out.bind]
+            | false =>
+              simp only [hse] at hm
+              have := matchLabels_corr hrel hsv r jr b hr hm
+              simp [Spec.Eval.matchAny, hvw, heq, Spec.Eval.Out.bind, this]
+        | error => simp [hw] at hm
+        | unspec => simp [hw] at hm
+
+theorem cases_nil_ok : CasesOk F ae buf .nil := by
+  intro fuel sc r env jenv jenv' out sv jv h hs hg hrel hb hsv hx
+  simp only [toCases, Option.some.injEq] at h; subst h
+  simp only [execCases, SRes.ok.injEq] at hx
+  subst hx
+  exact ⟨[], by simp [refCases], by simpa using hb, Keeps.refl _ _ _⟩
+
+theorem cases_cons_ok (p : Nat) (values : List Expr) (body : Block) (rest : CaseList) (ih1 : BlockOk F ae buf body)
+    (ih2 : CasesOk F ae buf rest) : CasesOk F ae buf (.cons p values body rest) := by
+  intro fuel sc r env jenv jenv' out sv jv h hs hg hrel hb hsv hx
+  unfold toCases at h
+  obtain ⟨rbv, hrb, hc⟩ := caseJoin_some h
+  rcases hc with ⟨rfl, _, rfl⟩ | ⟨hne, js, rr, hjs, hrr, rfl⟩
+  · simp only [execCases] at hx
+    obtain ⟨text, ht, hb', hk⟩ := ih1 fuel sc rbv env jenv jenv' out hrb hs hg hrel hb hx
+    exact ⟨text, by simp [refCases, ht], hb', hk⟩
+  · have hem : values.isEmpty = false := by cases values <;> simp at hne ⊢
+    simp only [execCases] at hx
+    cases hm : matchLabels jenv jv js with
+    | none => simp [hm] at hx
+    | some res =>
+      cases res with
+      | inl o => cases o <;> simp [hm] at hx
+      | inr b =>
+        have hany := matchLabels_corr hrel hsv values js b hjs hm
+        cases b with
+        | true =>
+          simp only [hm] at hx
+          obtain ⟨text, ht, hb', hk⟩ := ih1 fuel sc rbv env jenv jenv' out hrb hs hg hrel hb hx
+          exact ⟨text, by simp [refCases, hem, hany, Spec.Eval.Out.bind, ht], hb', hk⟩
+        | false =>
+          simp only [hm] at hx
+          obtain ⟨a1, a2⟩ := toBlock_scope ae body buf sc rbv hrb hs
+          obtain ⟨text, ht, hb', hk⟩ := ih2 fuel rbv.2 rr env jenv jenv' out sv jv hrr (scOk_of_stack hs a1 a2) (goodBuf_of_stack hg a1 a2)
+            (envRel_stack hrel a1) hb hsv hx
+          exact ⟨text, by simp [refCases, hem, hany, Spec.Eval.Out.bind, ht], hb', hk.mono a2⟩
+
+theorem switch_ok (p : Nat) (value : Expr) (cases : CaseList) (ih : CasesOk F ae buf cases) :
+    CmdOk F ae buf (.switch p value cases) := by
+  intro fuel sc r env jenv jenv' out h hs hg hrel hb hx
+  unfold toCmd at h
+  split at h
+  · rename_i j rc hj hrc
+    simp only [Option.some.injEq] at h; subst h
+    rw [execStmts_one] at hx
+    simp only [execStmt] at hx
+    obtain ⟨jv, hjv, hx⟩ := withVal_ok hx
+    obtain ⟨sv, hsv, hsvj⟩ := C04c.gen_correct_refs_partial sc env jenv hrel value j jv hj hjv
+    obtain ⟨text, ht, hb', hk⟩ := ih fuel sc rc env jenv jenv' out sv jv hrc hs hg hrel hb hsvj hx
+    obtain ⟨h1, _⟩ := toCases_scope ae cases buf sc rc hrc hs
+    exact ⟨text, env, by simp [refCmd, hsv, ht, Spec.Eval.Out.bind],
+      envRel_keep hrel hk hs.2 (Nat.le_refl _) hg.2 h1, hb', hk⟩
   · cases h
 
 /-! ### foreach -/
 
-omit hbuf in
 theorem keeps_setNew (lo : Nat) (e : JEnv) {x u : Bytes} {m : Nat} (hx : x.contains 36 = false) (hu : IsUse u)
     (hm : lo < m) (val : JVal) : Keeps buf lo e (setLocal e (Scope.jsname x u m) val) := by
   refine ⟨rfl, rfl, ?_⟩
   intro g _ hg
   exact find_setLocal_ne e _ g val (hg x u m hx hu hm)
 
-omit hbuf in
 theorem find_setLocal_eq (e : JEnv) (x : Bytes) (val : JVal) :
     (setLocal e x val).locals.find? (·.1 == x) = some (x, val) := by
   simp [setLocal]
 
-omit hbuf in
 theorem eval_local {e : JEnv} {x : Bytes} {val : JVal} (h : e.locals.find? (·.1 == x) = some (x, val)) :
     eval e (.local x) = .val val := by
   simp [eval, h]
 
-omit hbuf in
 theorem cond_lt {e : JEnv} {xi xn : Bytes} {a b : Int} (h1 : e.locals.find? (·.1 == xi) = some (xi, .num a))
     (h2 : e.locals.find? (·.1 == xn) = some (xn, .num b)) :
     eval e (.bin .lt (.local xi) (.local xn)) = .val (.bool (decide (a < b))) := by
   simp [eval, JOut.bind, binop, h1, h2]
 
-omit hbuf in
 theorem cond_gt0 {e : JEnv} {xn : Bytes} {b : Int} (h2 : e.locals.find? (·.1 == xn) = some (xn, .num b)) :
     eval e (.bin .gt (.local xn) (.num 0)) = .val (.bool (decide (0 < b))) := by
   have : SoyVerif.Spec.JsSem.exact 0 = true := by decide
   simp [eval, JOut.bind, binop, h2, this]
 
-omit hbuf in
 theorem indexVar_eval {e : JEnv} {xl xi : Bytes} {js : List JVal} {i : Nat}
     (h1 : e.locals.find? (·.1 == xl) = some (xl, .arr js)) (h2 : e.locals.find? (·.1 == xi) = some (xi, .num i)) :
     indexVar e xl xi = .val (js.getD i .undefined) := by
@@ -1420,19 +2107,18 @@ theorem indexVar_eval {e : JEnv} {xl xi : Bytes} {js : List JVal} {i : Nat}
 /-- the IH for a loop body: as for a block, in the frame the loop opened -/
 def BodyOk (b : Block) : Prop :=
   ∀ (fuel : Nat) (sc : Scope) (r : JsStmts × Scope) (env : SEnv) (jenv jenv' : JEnv) (out : Bytes),
-    toBody ae buf b sc = some r → ScOk sc → EnvRel sc env jenv → BufIs buf jenv out →
+    toBody ae buf b sc = some r → ScOk sc → GoodBuf sc buf → EnvRel sc env jenv → BufIs buf jenv out →
     execStmts F fuel r.1 jenv = .ok jenv' →
     ∃ text, refBlock F ae b env = .val text ∧ BufIs buf jenv' (out ++ text) ∧ Keeps buf sc.n jenv jenv'
 
-omit hbuf in
 theorem body_ok (p : Nat) (cmds : CmdList) (ih : CmdsOk F ae buf cmds) : BodyOk F ae buf (.mk p cmds) := by
-  intro fuel sc r env jenv jenv' out h hs hrel hb hx
+  intro fuel sc r env jenv jenv' out h hs hg hrel hb hx
   unfold toBody at h
-  obtain ⟨text, ht, hb', hk⟩ := ih fuel sc r env jenv jenv' out h hs hrel hb hx
+  obtain ⟨text, ht, hb', hk⟩ := ih fuel sc r env jenv jenv' out h hs hg hrel hb hx
   exact ⟨text, by simp only [refBlock]; exact ht, hb', hk⟩
 
 /-- the iterations from index `i` on: the JavaScript loop and `loopSpec` agree -/
-theorem loop_ok {sc : Scope} (hs : ScOk sc) (v : Bytes) (hv : v.contains 36 = false) (body : Block)
+theorem loop_ok {sc : Scope} (hs : ScOk sc) (hg : GoodBuf sc buf) (v : Bytes) (hv : v.contains 36 = false) (body : Block)
     (rb : JsStmts × Scope) (hrb : toBody ae buf body (sc.pushForEach v).2 = some rb) (ihb : BodyOk F ae buf body)
     (env : SEnv) (xs : List Val) (js : List JVal) (hxs : C04c.toJsList xs = some js) (fuel last : Nat)
     (lv xl xn xi : Bytes) (hlv : lv = Scope.jsname v [] (sc.n + 1)) (hxl : xl = Scope.jsname v b!"List" (sc.n + 1))
@@ -1459,13 +2145,10 @@ theorem loop_ok {sc : Scope} (hs : ScOk sc) (v : Bytes) (hv : v.contains 36 = fa
     rw [hxl, hxi]; intro e; have := (jsname_inj_all hv hv uL uI e).2.1; simp at this
   have ne_xi_xn : xn ≠ xi := by
     rw [hxn, hxi]; intro e; have := (jsname_inj_all hv hv uN uI e).2.1; simp at this
-  have nb : ∀ u m, Scope.jsname v u m ≠ buf := by
-    intro u m e
-    have := jsname_dollar v u m
-    rw [e, hbuf] at this
-    cases this
+  have nb : ∀ u, IsUse u → Scope.jsname v u (sc.n + 1) ≠ buf :=
+    fun u hu e => hg.1 v u (sc.n + 1) hv hu (Nat.lt_succ_self _) e.symm
   have hlen := C04c.toJsList_length xs js hxs
-  obtain ⟨hs1, _, hn1⟩ := scOk_pushForEach hs v
+  obtain ⟨hs1, _, hn1⟩ := scOk_pushForEach hs v hv
   intro rest
   induction rest with
   | nil =>
@@ -1527,20 +2210,20 @@ theorem loop_ok {sc : Scope} (hs : ScOk sc) (v : Bytes) (hv : v.contains 36 = fa
         exact this
       have hb_a : BufIs buf (setLocal e lv (js.getD i .undefined)) out := by
         unfold BufIs
-        rw [find_setLocal_ne e lv buf _ (by rw [hlv]; exact (nb _ _).symm)]
+        rw [find_setLocal_ne e lv buf _ (by rw [hlv]; exact (nb _ (Or.inl rfl)).symm)]
         exact hb
-      obtain ⟨ti, hti, hb_b, hk_b⟩ := ihb fuel _ rb _ _ eb out hrb hs1 hrel_a hb_a hbody
+      obtain ⟨ti, hti, hb_b, hk_b⟩ := ihb fuel _ rb _ _ eb out hrb hs1 (goodBuf_pushForEach hg v hv) hrel_a hb_a hbody
       rw [hn1] at hk_b
       -- the increment
       have oI : Old (sc.n + 1) xi := by rw [hxi]; exact old_jsname hv uI (Nat.le_refl _)
       have oL : Old (sc.n + 1) xl := by rw [hxl]; exact old_jsname hv uL (Nat.le_refl _)
       have oN : Old (sc.n + 1) xn := by rw [hxn]; exact old_jsname hv uN (Nat.le_refl _)
       have h3b : eb.locals.find? (·.1 == xi) = some (xi, .num i) := by
-        rw [hk_b.2.2 xi (by rw [hxi]; exact nb _ _) oI, find_setLocal_ne e lv xi _ ne_lv_xi]; exact h3
+        rw [hk_b.2.2 xi (by rw [hxi]; exact nb _ uI) oI, find_setLocal_ne e lv xi _ ne_lv_xi]; exact h3
       have h1b : eb.locals.find? (·.1 == xl) = some (xl, .arr js) := by
-        rw [hk_b.2.2 xl (by rw [hxl]; exact nb _ _) oL, find_setLocal_ne e lv xl _ ne_lv_xl]; exact h1
+        rw [hk_b.2.2 xl (by rw [hxl]; exact nb _ uL) oL, find_setLocal_ne e lv xl _ ne_lv_xl]; exact h1
       have h2b : eb.locals.find? (·.1 == xn) = some (xn, .num js.length) := by
-        rw [hk_b.2.2 xn (by rw [hxn]; exact nb _ _) oN, find_setLocal_ne e lv xn _ ne_lv_xn]; exact h2
+        rw [hk_b.2.2 xn (by rw [hxn]; exact nb _ uN) oN, find_setLocal_ne e lv xn _ ne_lv_xn]; exact h2
       rw [eval_local h3b] at hx
       obtain ⟨v0, hv0, hx⟩ := withVal_ok hx
       simp only [JOut.val.injEq] at hv0
@@ -1557,10 +2240,10 @@ theorem loop_ok {sc : Scope} (hs : ScOk sc) (v : Bytes) (hv : v.contains 36 = fa
         rw [hxi]; exact keeps_setNew buf sc.n eb hv uI (Nat.lt_succ_self _) _
       have hk_ec : Keeps buf sc.n e (setLocal eb xi (.num ((i + 1 : Nat) : Int))) :=
         (hk_a.trans (hk_b.mono (Nat.le_succ _)) (Nat.le_refl _)).trans hk_c (Nat.le_refl _)
-      have hrel_c := envRel_keep (sc' := sc) hrel hk_ec hs.2 (Nat.le_refl _) hbuf rfl
+      have hrel_c := envRel_keep (sc' := sc) hrel hk_ec hs.2 (Nat.le_refl _) hg.2 rfl
       have hb_c : BufIs buf (setLocal eb xi (.num ((i + 1 : Nat) : Int))) (out ++ ti) := by
         unfold BufIs
-        rw [find_setLocal_ne eb xi buf _ (by rw [hxi]; exact (nb _ _).symm)]
+        rw [find_setLocal_ne eb xi buf _ (by rw [hxi]; exact (nb _ uI).symm)]
         exact hb_b
       have h1c : (setLocal eb xi (.num ((i + 1 : Nat) : Int))).locals.find? (·.1 == xl) = some (xl, .arr js) := by
         rw [find_setLocal_ne eb xi xl _ ne_xi_xl]; exact h1b
@@ -1570,8 +2253,302 @@ theorem loop_ok {sc : Scope} (hs : ScOk sc) (v : Bytes) (hv : v.contains 36 = fa
       refine ⟨ti ++ tr, ?_, by rw [← List.append_assoc]; exact hb', hk_ec.trans hk' (Nat.le_refl _)⟩
       simp only [Spec.Eval.loopSpec, hti, htr, Spec.Eval.Out.bind]
 
+/-! ### for … in range(…) -/
+
+/-- the elements `range(a, l, s)` has in the specification -/
+def rangeItems (a l s : Int) : List Val :=
+  match Spec.Eval.rangeSpec a l s with
+  | .val (.list xs) => xs
+  | _ => []
+
+theorem rangeSpec_val (a l s : Int) (hs : 0 < s) : Spec.Eval.rangeSpec a l s = .val (.list (rangeItems a l s)) := by
+  have hs' : ¬ s ≤ 0 := by omega
+  unfold rangeItems Spec.Eval.rangeSpec
+  by_cases hle : l ≤ a <;> simp [hs', hle]
+
+theorem rangeItems_done (a l s : Int) (hs : 0 < s) (h : ¬ a < l) : rangeItems a l s = [] := by
+  have hs' : ¬ s ≤ 0 := by omega
+  have hle : l ≤ a := by omega
+  simp [rangeItems, Spec.Eval.rangeSpec, hs', hle]
+
+theorem rangeItems_step (a l s : Int) (hs : 0 < s) (h : a < l) :
+    rangeItems a l s = .int a :: rangeItems (a + s) l s := by
+  have hs' : ¬ s ≤ 0 := by omega
+  have hle : ¬ l ≤ a := by omega
+  have hne : s ≠ 0 := by omega
+  -- the count
+  have hcount : ((l - a) + s - 1) / s = ((l - (a + s)) + s - 1) / s + 1 := by
+    have : (l - a) + s - 1 = ((l - (a + s)) + s - 1) + 1 * s := by omega
+    rw [this, Int.add_mul_ediv_right _ _ hne]
+  by_cases hle2 : l ≤ a + s
+  · -- one element
+    have h1 : ((l - a) + s - 1) / s = 1 := by
+      rw [hcount]
+      have : ((l - (a + s)) + s - 1) / s = 0 := Int.ediv_eq_zero_of_lt (by omega) (by omega)
+      omega
+    simp [rangeItems, Spec.Eval.rangeSpec, hs', hle, hle2, h1, List.range_succ]
+  · have hpos : 0 ≤ ((l - (a + s)) + s - 1) / s := Int.ediv_nonneg (by omega) (by omega)
+    have htn : (((l - a) + s - 1) / s).toNat = (((l - (a + s)) + s - 1) / s).toNat + 1 := by
+      rw [hcount]; omega
+    simp only [rangeItems, Spec.Eval.rangeSpec, hs', hle, hle2, if_false, htn, List.range_succ_eq_map, List.map_cons,
+      List.map_map]
+    congr 1
+    · simp
+    · apply List.map_congr_left
+      intro k _
+      simp only [Function.comp]
+      congr 1
+      simp only [Nat.succ_eq_add_one, Int.natCast_add, Int.natCast_one, Int.add_mul, Int.one_mul]
+      omega
+
+theorem pushForRange_lookup (sc : Scope) (x k : Bytes) (hk : k.contains 36 = false) :
+    (sc.pushForRange x).2.lookup k = if x == k then some (sc.pushForRange x).1.1 else sc.lookup k := by
+  have hlim : ((Scope.kLimit ++ x) == k) = false := by
+    have : (Scope.kLimit ++ x).contains 36 = true := by simp [Scope.kLimit]
+    cases h : ((Scope.kLimit ++ x) == k) with
+    | false => rfl
+    | true => have := C04c.beq_true_eq h; subst this; simp_all
+  have hidx : ((Scope.kIndex ++ x) == k) = false := by
+    have : (Scope.kIndex ++ x).contains 36 = true := by simp [Scope.kIndex]
+    cases h : ((Scope.kIndex ++ x) == k) with
+    | false => rfl
+    | true => have := C04c.beq_true_eq h; subst this; simp_all
+  simp only [Scope.pushForRange, Scope.lookup, Scope.lookupIn, C04c.frameGet_frameSet, hlim, hidx, Bool.false_eq_true, if_false]
+  by_cases h : (x == k) = true
+  · simp [h]
+  · simp [h, frameGet?]
+
+/-- inside a range loop: the loop variable is held by its local, everything else as outside -/
+theorem envRel_forrange (sc : Scope) (env : SEnv) (e : JEnv) (x : Bytes) (a : Int) (hrel : EnvRel sc env e)
+    (ha : SoyVerif.Spec.JsSem.exact a = true)
+    (hfind : e.locals.find? (·.1 == (sc.pushForRange x).1.1) = some ((sc.pushForRange x).1.1, .num a)) (loops) :
+    EnvRel (sc.pushForRange x).2 { (env.bind x (.int a)) with loops := loops } e := by
+  intro k hk hd
+  rw [pushForRange_lookup sc x k hd]
+  by_cases hkx : (x == k) = true
+  · have : x = k := by simpa using hkx
+    subst this
+    simp only [hkx, if_true]
+    refine ⟨_, hfind, ?_⟩
+    simp [Spec.Eval.Env.bind, Spec.Eval.Env.lookup, Spec.Eval.find, C04c.toJsV, ha]
+  · simp only [hkx, Bool.false_eq_true, if_false]
+    have hr := hrel k hk hd
+    have hlook : Spec.Eval.Env.lookup { (env.bind x (.int a)) with loops := loops } k = env.lookup k := by
+      have : (x == k) = false := by simpa using hkx
+      simp [Spec.Eval.Env.bind, Spec.Eval.Env.lookup, Spec.Eval.find, this]
+    rw [hlook]
+    exact hr
+
+theorem applyFn_range (args : List Val) : Spec.Eval.applyFn b!"range" args =
+    (match args with
+     | [.int l] => Spec.Eval.rangeSpec 0 l 1
+     | [.int a, .int l] => Spec.Eval.rangeSpec a l 1
+     | [.int a, .int l, .int s] => Spec.Eval.rangeSpec a l s
+     | _ => .error) := rfl
+
+/-- the list a `range(…)` call denotes, from the values of its init / limit / step -/
+theorem range_eval (env : SEnv) (p : Nat) (args : ExprList) (l : Expr) (a lim st : Int)
+    (hl : rangeLimit args = some l) (h1 : Spec.Eval.eval env (rangeInit args) = .val (.int a))
+    (h2 : Spec.Eval.eval env l = .val (.int lim)) (h3 : Spec.Eval.eval env (rangeIncr args) = .val (.int st)) :
+    Spec.Eval.eval env (.func p b!"range" args) = Spec.Eval.rangeSpec a lim st := by
+  have hloop : Spec.Eval.isLoopFn b!"range" = false := rfl
+  have hz : ∀ z : Int, Spec.Eval.eval env (litInt z) = .val (.int z) := fun z => by simp [litInt, Spec.Eval.eval]
+  cases args with
+  | nil => simp [rangeLimit] at hl
+  | cons x r =>
+    cases r with
+    | nil =>
+      simp only [rangeLimit, Option.some.injEq] at hl; subst hl
+      simp only [rangeInit, rangeIncr, hz, Out.val.injEq, Val.int.injEq] at h1 h3
+      subst h1; subst h3
+      simp [Spec.Eval.eval, hloop, Spec.Eval.evalList, h2, Spec.Eval.Out.bind, applyFn_range]
+    | cons y r2 =>
+      cases r2 with
+      | nil =>
+        simp only [rangeLimit, Option.some.injEq] at hl; subst hl
+        simp only [rangeInit] at h1
+        simp only [rangeIncr, hz, Out.val.injEq, Val.int.injEq] at h3
+        subst h3
+        simp [Spec.Eval.eval, hloop, Spec.Eval.evalList, h1, h2, Spec.Eval.Out.bind, applyFn_range]
+      | cons z r3 =>
+        cases r3 with
+        | nil =>
+          simp only [rangeLimit, Option.some.injEq] at hl; subst hl
+          simp only [rangeInit] at h1
+          simp only [rangeIncr] at h3
+          simp [Spec.Eval.eval, hloop, Spec.Eval.evalList, h1, h2, h3, Spec.Eval.Out.bind, applyFn_range]
+        | cons _ _ => simp [rangeLimit] at hl
+
+/-- the iterations from value `a` on: the JavaScript loop and `loopSpec` over the rest of the range agree -/
+theorem range_loop_ok {sc : Scope} (hs : ScOk sc) (hg : GoodBuf sc buf) (v : Bytes) (hv : v.contains 36 = false) (body : Block)
+    (rb : JsStmts × Scope) (hrb : toBody ae buf body (sc.pushForRange v).2 = some rb) (ihb : BodyOk F ae buf body)
+    (env : SEnv) (l s : Int) (hspos : 0 < s) (fuel last : Nat)
+    (lv xn : Bytes) (hlv : lv = Scope.jsname v [] (sc.n + 1)) (hxn : xn = Scope.jsname v b!"Limit" (sc.n + 1)) :
+    ∀ (k : Nat) (a : Int) (idx : Nat) (e e' : JEnv) (out : Bytes),
+      SoyVerif.Spec.JsSem.exact a = true → EnvRel sc env e → BufIs buf e out →
+      e.locals.find? (·.1 == xn) = some (xn, .num l) →
+      e.locals.find? (·.1 == lv) = some (lv, .num a) →
+      execLoopStep (execStmts F fuel rb.1) lv xn (.num s) k e = .ok e' →
+      ∃ text, Spec.Eval.loopSpec (refBlock F ae body) env v last (rangeItems a l s) idx = .val text ∧
+        BufIs buf e' (out ++ text) ∧ Keeps buf sc.n e e' := by
+  have uN : IsUse b!"Limit" := Or.inr (Or.inr (Or.inl rfl))
+  have u0 : IsUse [] := Or.inl rfl
+  have ne_lv_xn : xn ≠ lv := by
+    rw [hxn, hlv]; intro e; have := (jsname_inj_all hv hv uN u0 e).2.1; simp at this
+  have nb : ∀ u, IsUse u → Scope.jsname v u (sc.n + 1) ≠ buf :=
+    fun u hu e => hg.1 v u (sc.n + 1) hv hu (Nat.lt_succ_self _) e.symm
+  obtain ⟨hs1, _, hn1⟩ := scOk_pushForRange hs v hv
+  intro k
+  induction k with
+  | zero => intro a idx e e' out _ _ _ _ _ hx; simp [execLoopStep] at hx
+  | succ k ih =>
+    intro a idx e e' out hexa hrel hb h2 h3 hx
+    unfold execLoopStep at hx
+    obtain ⟨c, hc, hx⟩ := withVal_ok hx
+    rw [cond_lt h3 h2] at hc
+    simp only [JOut.val.injEq] at hc
+    subst hc
+    by_cases hlt : a < l
+    · have : decide (a < l) = true := by simpa using hlt
+      simp only [this, toBoolean, if_true] at hx
+      obtain ⟨eb, hbody, hx⟩ := sres_bind_ok hx
+      have hrel_a : EnvRel (sc.pushForRange v).2
+          { (env.bind v (.int a)) with loops := (v, idx, last) :: env.loops } e :=
+        envRel_forrange sc env e v a hrel hexa (by rw [hlv] at h3; exact h3) _
+      obtain ⟨ti, hti, hb_b, hk_b⟩ := ihb fuel _ rb _ _ eb out hrb hs1 (goodBuf_pushForRange hg v hv) hrel_a hb hbody
+      rw [hn1] at hk_b
+      have oI : Old (sc.n + 1) lv := by rw [hlv]; exact old_jsname hv u0 (Nat.le_refl _)
+      have oN : Old (sc.n + 1) xn := by rw [hxn]; exact old_jsname hv uN (Nat.le_refl _)
+      have h3b : eb.locals.find? (·.1 == lv) = some (lv, .num a) := by
+        rw [hk_b.2.2 lv (by rw [hlv]; exact nb _ (Or.inl rfl)) oI]; exact h3
+      have h2b : eb.locals.find? (·.1 == xn) = some (xn, .num l) := by
+        rw [hk_b.2.2 xn (by rw [hxn]; exact nb _ uN) oN]; exact h2
+      -- `lv += s`
+      rw [eval_local h3b] at hx
+      obtain ⟨v0, hv0, hx⟩ := withVal_ok hx
+      simp only [JOut.val.injEq] at hv0
+      subst hv0
+      obtain ⟨d, hd, hx⟩ := withVal_ok hx
+      have hd' : d = .num s := by
+        unfold eval at hd
+        split at hd
+        · simp only [JOut.val.injEq] at hd; exact hd.symm
+        · cases hd
+      subst hd'
+      obtain ⟨r, hr, hx⟩ := withVal_ok hx
+      simp only [binop] at hr
+      obtain ⟨hexa', rfl⟩ := C04c.numRes_val hr
+      have hk_c : Keeps buf sc.n eb (setLocal eb lv (.num (a + s))) := by
+        rw [hlv]; exact keeps_setNew buf sc.n eb hv u0 (Nat.lt_succ_self _) _
+      have hk_ec : Keeps buf sc.n e (setLocal eb lv (.num (a + s))) :=
+        ((hk_b.mono (Nat.le_succ _))).trans hk_c (Nat.le_refl _)
+      have hrel_c := envRel_keep (sc' := sc) hrel hk_ec hs.2 (Nat.le_refl _) hg.2 rfl
+      have hb_c : BufIs buf (setLocal eb lv (.num (a + s))) (out ++ ti) := by
+        unfold BufIs
+        rw [find_setLocal_ne eb lv buf _ (by rw [hlv]; exact (nb _ (Or.inl rfl)).symm)]
+        exact hb_b
+      have h2c : (setLocal eb lv (.num (a + s))).locals.find? (·.1 == xn) = some (xn, .num l) := by
+        rw [find_setLocal_ne eb lv xn _ ne_lv_xn]; exact h2b
+      obtain ⟨tr, htr, hb', hk'⟩ := ih (a + s) (idx + 1) _ e' (out ++ ti) hexa' hrel_c hb_c h2c (find_setLocal_eq _ _ _) hx
+      refine ⟨ti ++ tr, ?_, by rw [← List.append_assoc]; exact hb', hk_ec.trans hk' (Nat.le_refl _)⟩
+      rw [rangeItems_step a l s hspos hlt]
+      simp only [Spec.Eval.loopSpec, hti, htr, Spec.Eval.Out.bind]
+    · have : decide (a < l) = false := by simpa using hlt
+      simp only [this, toBoolean, Bool.false_eq_true, if_false, SRes.ok.injEq] at hx
+      subst hx
+      rw [rangeItems_done a l s hspos hlt]
+      exact ⟨[], by simp [Spec.Eval.loopSpec], by simpa using hb, Keeps.refl _ _ _⟩
+
+/-- a loop that completes has compared two numbers -/
+theorem loop_first {body : JEnv → SRes} {i lim : Bytes} {incr : JsExpr} {k : Nat} {e e' : JEnv} {vi vl : JVal}
+    (hx : execLoopStep body i lim incr k e = .ok e') (h1 : e.locals.find? (·.1 == i) = some (i, vi))
+    (h2 : e.locals.find? (·.1 == lim) = some (lim, vl)) : ∃ a l, vi = .num a ∧ vl = .num l := by
+  cases k with
+  | zero => simp [execLoopStep] at hx
+  | succ k =>
+    unfold execLoopStep at hx
+    obtain ⟨c, hc, _⟩ := withVal_ok hx
+    have : eval e (.bin .lt (.local i) (.local lim)) = binop .lt vi vl := by
+      simp [eval, JOut.bind, h1, h2]
+    rw [this] at hc
+    cases vi <;> cases vl <;> simp [binop] at hc
+    exact ⟨_, _, rfl, rfl⟩
+
+theorem range_ok (p : Nat) (v : Bytes) (list : Expr) (body : Block) (ihb : BodyOk F ae buf body) :
+    ∀ (fuel : Nat) (sc : Scope) (r : JsStmts × Scope) (env : SEnv) (jenv jenv' : JEnv) (out : Bytes),
+      rangeJoin v list sc (toBody ae buf body (sc.pushForRange v).2) true = some r → ScOk sc → GoodBuf sc buf → EnvRel sc env jenv →
+      BufIs buf jenv out → execStmts F fuel r.1 jenv = .ok jenv' →
+      ∃ text env', refCmd F ae (.forc p v list body none) env = .val (text, env') ∧ EnvRel r.2 env' jenv' ∧
+        BufIs buf jenv' (out ++ text) ∧ Keeps buf sc.n jenv jenv' := by
+  intro fuel sc r env jenv jenv' out h hs hg hrel hb hx
+  obtain ⟨hv, _, args, l, c, jl, ji, rbv, pc, hr, hl, hinc, hpos, hjl, hji, hrb, rfl⟩ := rangeJoin_some h
+  obtain ⟨pf, rfl⟩ := isRangeCall_some hr
+  have uN : IsUse b!"Limit" := Or.inr (Or.inr (Or.inl rfl))
+  have u0 : IsUse [] := Or.inl rfl
+  have nb : ∀ u, IsUse u → Scope.jsname v u (sc.n + 1) ≠ buf :=
+    fun u hu e => hg.1 v u (sc.n + 1) hv hu (Nat.lt_succ_self _) e.symm
+  have ne_lv_xn : (sc.pushForRange v).1.2 ≠ (sc.pushForRange v).1.1 := by
+    intro e
+    have := (jsname_inj_all hv hv uN u0 e).2.1
+    simp at this
+  simp only [rangeStmts, JsStmts.one, execStmts] at hx
+  obtain ⟨e1, h1, hx⟩ := sres_bind_ok hx
+  obtain ⟨e2, h2, hx⟩ := sres_bind_ok hx
+  simp only [SRes.ok.injEq] at hx
+  subst hx
+  -- `var vLimit = limit;`
+  simp only [execStmt] at h1
+  obtain ⟨jlim, hjlim, h1⟩ := withVal_ok h1
+  simp only [SRes.ok.injEq] at h1
+  subst h1
+  obtain ⟨vlim, hvlim, hlimj⟩ := C04c.gen_correct_refs_partial sc env jenv hrel l jl jlim hjl hjlim
+  have k1 : Keeps buf sc.n jenv (setLocal jenv (sc.pushForRange v).1.2 jlim) :=
+    keeps_setNew buf sc.n jenv hv uN (Nat.lt_succ_self _) _
+  have hrel1 := envRel_keep (sc' := sc) hrel k1 hs.2 (Nat.le_refl _) hg.2 rfl
+  -- `for (var v = init; …`
+  simp only [execStmt] at h2
+  obtain ⟨jinit, hjinit, h2⟩ := withVal_ok h2
+  obtain ⟨vinit, hvinit, hinitj⟩ := C04c.gen_correct_refs_partial sc env _ hrel1 _ ji jinit hji hjinit
+  have k2 : Keeps buf sc.n (setLocal jenv (sc.pushForRange v).1.2 jlim)
+      (setLocal (setLocal jenv (sc.pushForRange v).1.2 jlim) (sc.pushForRange v).1.1 jinit) :=
+    keeps_setNew buf sc.n _ hv u0 (Nat.lt_succ_self _) _
+  have k12 := k1.trans k2 (Nat.le_refl _)
+  have hrel2 := envRel_keep (sc' := sc) hrel k12 hs.2 (Nat.le_refl _) hg.2 rfl
+  have hfl : (setLocal (setLocal jenv (sc.pushForRange v).1.2 jlim) (sc.pushForRange v).1.1 jinit).locals.find?
+      (·.1 == (sc.pushForRange v).1.2) = some ((sc.pushForRange v).1.2, jlim) := by
+    rw [find_setLocal_ne _ _ _ _ ne_lv_xn]; exact find_setLocal_eq _ _ _
+  obtain ⟨a, lim, rfl, rfl⟩ := loop_first h2 (find_setLocal_eq _ _ _) hfl
+  obtain ⟨rfl, hexa⟩ := C04c.toJsV_num hinitj
+  obtain ⟨rfl, _⟩ := C04c.toJsV_num hlimj
+  have hb2 : BufIs buf (setLocal (setLocal jenv (sc.pushForRange v).1.2 (.num lim)) (sc.pushForRange v).1.1 (.num a)) out := by
+    have nb1 : (sc.pushForRange v).1.1 ≠ buf := nb [] u0
+    have nb2 : (sc.pushForRange v).1.2 ≠ buf := nb b!"Limit" uN
+    unfold BufIs
+    rw [find_setLocal_ne _ (sc.pushForRange v).1.1 buf _ nb1.symm, find_setLocal_ne _ (sc.pushForRange v).1.2 buf _ nb2.symm]
+    exact hb
+  obtain ⟨text, ht, hb', hk'⟩ := range_loop_ok F ae buf hs hg v hv body rbv hrb ihb env lim c hpos fuel
+    ((rangeItems a lim c).length - 1) _ _ rfl rfl fuel a 0 _ e2 out hexa hrel2 hb2 hfl (find_setLocal_eq _ _ _) h2
+  have hk := k12.trans hk' (Nat.le_refl _)
+  have hst : rbv.2.pop.stack = sc.stack := by
+    obtain ⟨p1, p2, _⟩ := scOk_pushForRange hs v hv
+    obtain ⟨_, b2, _⟩ := toBody_scope ae body buf _ rbv hrb p1
+    simp only [Scope.pop]; rw [b2, p2]
+  have hev : Spec.Eval.eval env (.func pf b!"range" args) = .val (.list (rangeItems a lim c)) := by
+    rw [range_eval env pf args l a lim c hl hvinit hvlim (by rw [hinc]; simp [Spec.Eval.eval]), rangeSpec_val a lim c hpos]
+  refine ⟨text, env, ?_, envRel_keep hrel hk hs.2 (Nat.le_refl _) hg.2 hst, hb', hk⟩
+  cases hitems : rangeItems a lim c with
+  | nil =>
+    rw [hitems] at ht
+    simp only [Spec.Eval.loopSpec, Out.val.injEq] at ht
+    subst ht
+    simp [refCmd, hev, hitems, Spec.Eval.Out.bind]
+  | cons x xs' =>
+    rw [hitems] at ht
+    have ht' : Spec.Eval.loopSpec (refBlock F ae body) env v xs'.length (x :: xs') 0 = .val text := by simpa using ht
+    simp [refCmd, hev, hitems, Spec.Eval.Out.bind, ht']
+
 /-- `var xList = list; var xLimit = xList.length;` and then the loop -/
-theorem foreach_core {sc : Scope} (hs : ScOk sc) (v : Bytes) (hv : v.contains 36 = false) (list : Expr) (j : JsExpr)
+theorem foreach_core {sc : Scope} (hs : ScOk sc) (hg : GoodBuf sc buf) (v : Bytes) (hv : v.contains 36 = false) (list : Expr) (j : JsExpr)
     (hj : toAst sc list = some j) (body : Block) (rb : JsStmts × Scope)
     (hrb : toBody ae buf body (sc.pushForEach v).2 = some rb) (ihb : BodyOk F ae buf body)
     (env : SEnv) (jenv : JEnv) (out : Bytes) (hrel : EnvRel sc env jenv) (hb : BufIs buf jenv out) (fuel : Nat)
@@ -1580,6 +2557,7 @@ theorem foreach_core {sc : Scope} (hs : ScOk sc) (v : Bytes) (hv : v.contains 36
     (e1 e2 : JEnv) (h1 : execStmt F fuel (.var xl j) jenv = .ok e1) (h2 : execStmt F fuel (.varLength xn xl) e1 = .ok e2) :
     ∃ xs js, Spec.Eval.eval env list = .val (.list xs) ∧ C04c.toJsList xs = some js ∧
       EnvRel sc env e2 ∧ BufIs buf e2 out ∧ Keeps buf sc.n jenv e2 ∧
+      e2 = setLocal (setLocal jenv xl (.arr js)) xn (.num js.length) ∧
       e2.locals.find? (·.1 == xn) = some (xn, .num js.length) ∧
       (∀ e', execStmt F fuel (.forUp xi xn (.cons (.varIndex lv xl xi) rb.1)) e2 = .ok e' →
         ∃ text, Spec.Eval.loopSpec (refBlock F ae body) env v (xs.length - 1) xs 0 = .val text ∧
@@ -1587,11 +2565,8 @@ theorem foreach_core {sc : Scope} (hs : ScOk sc) (v : Bytes) (hv : v.contains 36
   have uL : IsUse b!"List" := Or.inr (Or.inl rfl)
   have uN : IsUse b!"Limit" := Or.inr (Or.inr (Or.inl rfl))
   have uI : IsUse b!"Index" := Or.inr (Or.inr (Or.inr rfl))
-  have nb : ∀ u m, Scope.jsname v u m ≠ buf := by
-    intro u m e
-    have := jsname_dollar v u m
-    rw [e, hbuf] at this
-    cases this
+  have nb : ∀ u, IsUse u → Scope.jsname v u (sc.n + 1) ≠ buf :=
+    fun u hu e => hg.1 v u (sc.n + 1) hv hu (Nat.lt_succ_self _) e.symm
   have ne_xn_xl : xl ≠ xn := by
     rw [hxl, hxn]; intro e; have := (jsname_inj_all hv hv uL uN e).2.1; simp at this
   have ne_xi_xl : xl ≠ xi := by
@@ -1621,24 +2596,24 @@ theorem foreach_core {sc : Scope} (hs : ScOk sc) (v : Bytes) (hv : v.contains 36
   have k2 : Keeps buf sc.n (setLocal jenv xl (.arr js)) (setLocal (setLocal jenv xl (.arr js)) xn (.num js.length)) := by
     rw [hxn]; exact keeps_setNew buf sc.n _ hv uN (Nat.lt_succ_self _) _
   have k12 := k1.trans k2 (Nat.le_refl _)
-  have hrel2 := envRel_keep (sc' := sc) hrel k12 hs.2 (Nat.le_refl _) hbuf rfl
+  have hrel2 := envRel_keep (sc' := sc) hrel k12 hs.2 (Nat.le_refl _) hg.2 rfl
   have hb2 : BufIs buf (setLocal (setLocal jenv xl (.arr js)) xn (.num js.length)) out := by
     unfold BufIs
-    rw [find_setLocal_ne _ xn buf _ (by rw [hxn]; exact (nb _ _).symm),
-      find_setLocal_ne _ xl buf _ (by rw [hxl]; exact (nb _ _).symm)]
+    rw [find_setLocal_ne _ xn buf _ (by rw [hxn]; exact (nb _ uN).symm),
+      find_setLocal_ne _ xl buf _ (by rw [hxl]; exact (nb _ uL).symm)]
     exact hb
-  refine ⟨xs, js, hlvv, hxs, hrel2, hb2, k12, find_setLocal_eq _ _ _, ?_⟩
+  refine ⟨xs, js, hlvv, hxs, hrel2, hb2, k12, rfl, find_setLocal_eq _ _ _, ?_⟩
   intro e' hx
   simp only [execStmt] at hx
   have k3 : Keeps buf sc.n (setLocal (setLocal jenv xl (.arr js)) xn (.num js.length))
       (setLocal (setLocal (setLocal jenv xl (.arr js)) xn (.num js.length)) xi (.num 0)) := by
     rw [hxi]; exact keeps_setNew buf sc.n _ hv uI (Nat.lt_succ_self _) _
-  have hrel3 := envRel_keep (sc' := sc) hrel2 k3 hs.2 (Nat.le_refl _) hbuf rfl
+  have hrel3 := envRel_keep (sc' := sc) hrel2 k3 hs.2 (Nat.le_refl _) hg.2 rfl
   have hb3 : BufIs buf (setLocal (setLocal (setLocal jenv xl (.arr js)) xn (.num js.length)) xi (.num 0)) out := by
     unfold BufIs
-    rw [find_setLocal_ne _ xi buf _ (by rw [hxi]; exact (nb _ _).symm)]
+    rw [find_setLocal_ne _ xi buf _ (by rw [hxi]; exact (nb _ uI).symm)]
     exact hb2
-  obtain ⟨text, ht, hb', hk'⟩ := loop_ok F ae buf hbuf hs v hv body rb hrb ihb env xs js hxs fuel (xs.length - 1)
+  obtain ⟨text, ht, hb', hk'⟩ := loop_ok F ae buf hs hg v hv body rb hrb ihb env xs js hxs fuel (xs.length - 1)
     lv xl xn xi hlv hxl hxn hxi xs 0 (List.drop_zero) fuel _ e' out hrel3 hb3
     (by rw [find_setLocal_ne _ xi xl _ ne_xi_xl, find_setLocal_ne _ xn xl _ ne_xn_xl]; exact find_setLocal_eq _ _ _)
     (by rw [find_setLocal_ne _ xi xn _ ne_xi_xn]; exact find_setLocal_eq _ _ _)
@@ -1647,9 +2622,11 @@ theorem foreach_core {sc : Scope} (hs : ScOk sc) (v : Bytes) (hv : v.contains 36
 
 theorem forc_none_ok (p : Nat) (v : Bytes) (list : Expr) (body : Block) (ihb : BodyOk F ae buf body) :
     CmdOk F ae buf (.forc p v list body none) := by
-  intro fuel sc r env jenv jenv' out h hs hrel hb hx
-  have hscope := toCmd_scope ae buf _ sc r h hs
+  intro fuel sc r env jenv jenv' out h hs hg hrel hb hx
+  have hscope := toCmd_scope ae _ buf sc r h hs
   unfold toCmd at h
+  rcases loopJoin_some h with h | h
+  case inr => exact range_ok F ae buf p v list body ihb fuel sc r env jenv jenv' out h hs hg hrel hb hx
   obtain ⟨hv, _, j, rbv, hj, hrb, he⟩ := forcJoin_some h
   simp only at he
   subst he
@@ -1659,16 +2636,16 @@ theorem forc_none_ok (p : Nat) (v : Bytes) (list : Expr) (body : Block) (ihb : B
   obtain ⟨e3, h3, hx⟩ := sres_bind_ok hx
   simp only [SRes.ok.injEq] at hx
   subst hx
-  obtain ⟨xs, js, hev, hxs, _, _, k12, _, hloop⟩ := foreach_core F ae buf hbuf hs v hv list j hj body rbv hrb ihb env jenv out
+  obtain ⟨xs, js, hev, hxs, _, _, k12, _, _, hloop⟩ := foreach_core F ae buf hs hg v hv list j hj body rbv hrb ihb env jenv out
     hrel hb fuel _ _ _ _ rfl rfl rfl rfl e1 e2 h1 h2
   obtain ⟨text, ht, hb', hk'⟩ := hloop e3 h3
   have hk := k12.trans hk' (Nat.le_refl _)
   have hst : rbv.2.pop.stack = sc.stack := by
     obtain ⟨⟨hne, _⟩, htl, _⟩ := hscope
-    obtain ⟨_, p2, _⟩ := scOk_pushForEach hs v
-    obtain ⟨_, b2, _⟩ := toBody_scope ae buf body _ rbv hrb (scOk_pushForEach hs v).1
+    obtain ⟨_, p2, _⟩ := scOk_pushForEach hs v hv
+    obtain ⟨_, b2, _⟩ := toBody_scope ae body buf _ rbv hrb (scOk_pushForEach hs v hv).1
     simp only [Scope.pop]; rw [b2, p2]
-  refine ⟨text, env, ?_, envRel_keep hrel hk hs.2 (Nat.le_refl _) hbuf hst, hb', hk⟩
+  refine ⟨text, env, ?_, envRel_keep hrel hk hs.2 (Nat.le_refl _) hg.2 hst, hb', hk⟩
   cases xs with
   | nil =>
     simp only [Spec.Eval.loopSpec, Out.val.injEq] at ht
@@ -1680,8 +2657,9 @@ theorem forc_none_ok (p : Nat) (v : Bytes) (list : Expr) (body : Block) (ihb : B
 
 theorem forc_some_ok (p : Nat) (v : Bytes) (list : Expr) (body ie : Block) (ihb : BodyOk F ae buf body)
     (ihe : BlockOk F ae buf ie) : CmdOk F ae buf (.forc p v list body (some ie)) := by
-  intro fuel sc r env jenv jenv' out h hs hrel hb hx
+  intro fuel sc r env jenv jenv' out h hs hg hrel hb hx
   unfold toCmd at h
+  have h := (loopJoin_some h).resolve_right (by intro h'; have := (rangeJoin_some h').2.1; simp at this)
   obtain ⟨hv, _, j, rbv, hj, hrb, he⟩ := forcJoin_some h
   simp only at he
   obtain ⟨re, hre, rfl⟩ := he
@@ -1691,19 +2669,19 @@ theorem forc_some_ok (p : Nat) (v : Bytes) (list : Expr) (body ie : Block) (ihb 
   obtain ⟨e3, h3, hx⟩ := sres_bind_ok hx
   simp only [SRes.ok.injEq] at hx
   subst hx
-  obtain ⟨xs, js, hev, hxs, hrel2, hb2, k12, hfn, hloop⟩ := foreach_core F ae buf hbuf hs v hv list j hj body rbv hrb ihb
+  obtain ⟨xs, js, hev, hxs, hrel2, hb2, k12, _, hfn, hloop⟩ := foreach_core F ae buf hs hg v hv list j hj body rbv hrb ihb
     env jenv out hrel hb fuel _ _ _ _ rfl rfl rfl rfl e1 e2 h1 h2
   have hlen := C04c.toJsList_length xs js hxs
   have hst : rbv.2.pop.stack = sc.stack := by
-    obtain ⟨_, p2, _⟩ := scOk_pushForEach hs v
-    obtain ⟨_, b2, _⟩ := toBody_scope ae buf body _ rbv hrb (scOk_pushForEach hs v).1
+    obtain ⟨_, p2, _⟩ := scOk_pushForEach hs v hv
+    obtain ⟨_, b2, _⟩ := toBody_scope ae body buf _ rbv hrb (scOk_pushForEach hs v hv).1
     simp only [Scope.pop]; rw [b2, p2]
   have hn : sc.n ≤ rbv.2.pop.n := by
-    obtain ⟨_, _, p3⟩ := scOk_pushForEach hs v
-    obtain ⟨_, _, b3⟩ := toBody_scope ae buf body _ rbv hrb (scOk_pushForEach hs v).1
+    obtain ⟨_, _, p3⟩ := scOk_pushForEach hs v hv
+    obtain ⟨_, _, b3⟩ := toBody_scope ae body buf _ rbv hrb (scOk_pushForEach hs v hv).1
     simp only [Scope.pop]; omega
   have hs' : ScOk rbv.2.pop := scOk_of_stack hs hst hn
-  obtain ⟨c1, c2⟩ := toBlock_scope ae buf ie _ re hre hs'
+  obtain ⟨c1, c2⟩ := toBlock_scope ae ie buf _ re hre hs'
   -- `if (xLimit > 0)`
   simp only [execStmt] at h3
   obtain ⟨c, hc, h3⟩ := withVal_ok h3
@@ -1718,7 +2696,7 @@ theorem forc_some_ok (p : Nat) (v : Bytes) (list : Expr) (body ie : Block) (ihb 
     subst h3
     obtain ⟨text, ht, hb', hk'⟩ := hloop e4 h4
     have hk := k12.trans hk' (Nat.le_refl _)
-    refine ⟨text, env, ?_, envRel_keep hrel hk hs.2 (Nat.le_refl _) hbuf (c1.trans hst), hb', hk⟩
+    refine ⟨text, env, ?_, envRel_keep hrel hk hs.2 (Nat.le_refl _) hg.2 (c1.trans hst), hb', hk⟩
     cases xs with
     | nil => simp only [List.length_nil] at hlen; omega
     | cons x xs' =>
@@ -1727,43 +2705,124 @@ theorem forc_some_ok (p : Nat) (v : Bytes) (list : Expr) (body ie : Block) (ihb 
   · have : decide ((0 : Int) < (js.length : Int)) = false := by simpa using hpos
     simp only [this, toBoolean, Bool.false_eq_true, if_false] at h3
     have hrel2' : EnvRel rbv.2.pop env e2 := envRel_stack hrel2 hst
-    obtain ⟨text, ht, hb', hk'⟩ := ihe fuel _ re env e2 e3 out hre hs' hrel2' hb2 h3
+    obtain ⟨text, ht, hb', hk'⟩ := ihe fuel _ re env e2 e3 out hre hs' (goodBuf_of_stack hg hst hn) hrel2' hb2 h3
     have hk := k12.trans (hk'.mono hn) (Nat.le_refl _)
-    refine ⟨text, env, ?_, envRel_keep hrel hk hs.2 (Nat.le_refl _) hbuf (c1.trans hst), hb', hk⟩
+    refine ⟨text, env, ?_, envRel_keep hrel hk hs.2 (Nat.le_refl _) hg.2 (c1.trans hst), hb', hk⟩
     cases xs with
     | nil => simp [refCmd, hev, Spec.Eval.Out.bind, ht]
     | cons x xs' => simp only [List.length_cons] at hlen; omega
 
+/-! ### a content block: the body writes to a buffer of its own -/
+
+theorem letContent_ok (p : Nat) (name : Bytes) (body : Block) (ih : ∀ buf', BlockOk F ae buf' body) :
+    CmdOk F ae buf (.letContent p name body) := by
+  intro fuel sc r env jenv jenv' out h hs hg hrel hb hx
+  unfold toCmd at h
+  obtain ⟨hname, rbv, hrb, rfl⟩ := letJoin_some h
+  have hs' : ScOk (sc.genname name).2 := scOk_of_stack hs rfl (Nat.le_succ _)
+  obtain ⟨a1, a2⟩ := toBlock_scope ae body _ _ rbv hrb hs'
+  have a2' : sc.n + 1 ≤ rbv.2.n := a2
+  have hnb : (sc.genname name).1 ≠ buf := fun e => hg.1 name [] (sc.n + 1) hname (Or.inl rfl) (Nat.lt_succ_self _) e.symm
+  -- the new buffer is good for the scope the body starts in
+  have hg' : GoodBuf (sc.genname name).2 (sc.genname name).1 :=
+    ⟨old_jsname hname (Or.inl rfl) (Nat.le_refl _), fun f hf kv hkv => (hs.2 f hf kv hkv).2 name [] (sc.n + 1) hname (Or.inl rfl)
+      (Nat.lt_succ_self _)⟩
+  -- `var x$n = '';`
+  simp only [execStmts] at hx
+  obtain ⟨e1, h1, hx⟩ := sres_bind_ok hx
+  simp only [execStmt, SRes.ok.injEq] at h1
+  subst h1
+  have k1 : Keeps buf sc.n jenv (setLocal jenv (sc.genname name).1 (.str [])) :=
+    keeps_setNew buf sc.n jenv hname (Or.inl rfl) (Nat.lt_succ_self _) _
+  have hrel1 : EnvRel (sc.genname name).2 env (setLocal jenv (sc.genname name).1 (.str [])) :=
+    envRel_keep hrel k1 hs.2 (Nat.le_refl _) hg.2 rfl
+  obtain ⟨text, ht, hb', hk'⟩ := ih (sc.genname name).1 fuel _ rbv env _ jenv' [] hrb hs' hg' hrel1 (find_setLocal_eq _ _ _) hx
+  simp only [List.nil_append] at hb'
+  have hn1 : (sc.genname name).2.n = sc.n + 1 := rfl
+  rw [hn1] at hk'
+  -- what the outer buffer and the outer locals see
+  have hkeep : Keeps buf sc.n jenv jenv' := by
+    refine ⟨hk'.1.trans k1.1, hk'.2.1.trans k1.2.1, ?_⟩
+    intro g hgb hgo
+    have hgn : g ≠ (sc.genname name).1 := fun e => hgo name [] (sc.n + 1) hname (Or.inl rfl) (Nat.lt_succ_self _) e
+    rw [hk'.2.2 g hgn (hgo.mono (Nat.le_succ _)), find_setLocal_ne jenv _ g _ hgn]
+  have hbuf' : BufIs buf jenv' out := by
+    unfold BufIs
+    rw [hk'.2.2 buf hnb.symm (hg.1.mono (Nat.le_succ _)), find_setLocal_ne jenv _ buf _ hnb.symm]
+    exact hb
+  refine ⟨[], env.bind name (.str text), by simp [refCmd, ht, Spec.Eval.Out.bind], ?_, by simpa using hbuf', hkeep⟩
+  -- the relation in the scope that binds `name` to the buffer
+  have hst : sc.stack ≠ [] := hs.1
+  cases hstk : rbv.2.stack with
+  | nil => rw [a1] at hstk; exact absurd hstk hst
+  | cons f st =>
+    intro k hk hd
+    have hlook : (rbv.2.bind name (sc.genname name).1).lookup k =
+        if name == k then some (sc.genname name).1 else sc.lookup k := by
+      have hsc : sc.lookup k = Scope.lookupIn (f :: st) k := by
+        simp only [Scope.lookup]; rw [← hstk, a1]; rfl
+      rw [hsc]
+      simp only [Scope.bind, Scope.lookup, hstk, Scope.setTop, Scope.lookupIn, C04c.frameGet_frameSet]
+      by_cases hnk : (name == k) = true
+      · simp [hnk]
+      · simp [hnk]
+    rw [hlook]
+    by_cases hnk : (name == k) = true
+    · have : name = k := by simpa using hnk
+      subst this
+      simp only [hnk, if_true]
+      exact ⟨_, hb', by simp [Spec.Eval.Env.bind, Spec.Eval.Env.lookup, Spec.Eval.find, C04c.toJsV]⟩
+    · simp only [hnk, Bool.false_eq_true, if_false]
+      have hr := hrel k hk hd
+      have hlk : (env.bind name (.str text)).lookup k = env.lookup k := by
+        have : (name == k) = false := by simpa using hnk
+        simp [Spec.Eval.Env.bind, Spec.Eval.Env.lookup, Spec.Eval.find, this]
+      rw [hlk]
+      cases hl : sc.lookup k with
+      | none =>
+        simp only [hl] at hr ⊢
+        rw [hkeep.1]; exact hr
+      | some g =>
+        simp only [hl] at hr ⊢
+        obtain ⟨kv, hfind, hkv⟩ := hr
+        obtain ⟨f0, hf0, hm⟩ := lookupIn_mem sc.stack k g hl
+        refine ⟨kv, ?_, hkv⟩
+        rw [hkeep.2.2 g (hg.2 f0 hf0 _ hm) (hs.2 f0 hf0 _ hm).2]
+        exact hfind
+
 mutual
-  theorem cmd_ok : ∀ c : Cmd, CmdOk F ae buf c
-    | .rawText p t => rawText_ok F ae buf hbuf p t
-    | .print p arg dirs => print_ok F ae buf hbuf p arg dirs
-    | .letValue p x e => letValue_ok F ae buf hbuf p x e
-    | .ifc p conds => ifc_ok F ae buf hbuf p conds (conds_ok conds)
-    | .msg .. => fun _ _ _ _ _ _ _ h => by simp [toCmd] at h
-    | .css .. => fun _ _ _ _ _ _ _ h => by simp [toCmd] at h
-    | .debugger .. => fun _ _ _ _ _ _ _ h => by simp [toCmd] at h
-    | .log .. => fun _ _ _ _ _ _ _ h => by simp [toCmd] at h
-    | .forc p v list body none => forc_none_ok F ae buf hbuf p v list body (body_ok' body)
-    | .forc p v list body (some ie) => forc_some_ok F ae buf hbuf p v list body ie (body_ok' body) (block_ok' ie)
-    | .switch .. => fun _ _ _ _ _ _ _ h => by simp [toCmd] at h
-    | .call .. => fun _ _ _ _ _ _ _ h => by simp [toCmd] at h
-    | .letContent .. => fun _ _ _ _ _ _ _ h => by simp [toCmd] at h
-    | .headerParam .. => fun _ _ _ _ _ _ _ h => by simp [toCmd] at h
-    | .namespace .. => fun _ _ _ _ _ _ _ h => by simp [toCmd] at h
-    | .template .. => fun _ _ _ _ _ _ _ h => by simp [toCmd] at h
-    | .soyDoc .. => fun _ _ _ _ _ _ _ h => by simp [toCmd] at h
-  theorem body_ok' : ∀ b : Block, BodyOk F ae buf b
-    | .mk p cmds => body_ok F ae buf p cmds (cmds_ok cmds)
-  theorem block_ok' : ∀ b : Block, BlockOk F ae buf b
-    | .mk p cmds => block_ok F ae buf p cmds (cmds_ok cmds)
-  theorem cmds_ok : ∀ cs : CmdList, CmdsOk F ae buf cs
-    | .nil => cmds_nil_ok F ae buf
-    | .cons c rest => cmds_cons_ok F ae buf c rest (cmd_ok c) (cmds_ok rest)
-  theorem conds_ok : ∀ cs : CondList, CondsOk F ae buf cs
-    | .nil => conds_nil_ok F ae buf
-    | .cons p (some c) body rest => conds_some_ok F ae buf p c body rest (block_ok' body) (conds_ok rest)
-    | .cons p none body rest => conds_else_ok F ae buf p body rest (block_ok' body)
+  theorem cmd_ok : ∀ (c : Cmd) (buf : Bytes), CmdOk F ae buf c
+    | .rawText p t, buf => rawText_ok F ae buf p t
+    | .print p arg dirs, buf => print_ok F ae buf p arg dirs
+    | .letValue p x e, buf => letValue_ok F ae buf p x e
+    | .ifc p conds, buf => ifc_ok F ae buf p conds (conds_ok conds buf)
+    | .msg .., _ => fun _ _ _ _ _ _ _ h => by simp [toCmd] at h
+    | .css .., _ => fun _ _ _ _ _ _ _ h => by simp [toCmd] at h
+    | .debugger .., _ => fun _ _ _ _ _ _ _ h => by simp [toCmd] at h
+    | .log .., _ => fun _ _ _ _ _ _ _ h => by simp [toCmd] at h
+    | .forc p v list body none, buf => forc_none_ok F ae buf p v list body (body_ok' body buf)
+    | .forc p v list body (some ie), buf => forc_some_ok F ae buf p v list body ie (body_ok' body buf) (block_ok' ie buf)
+    | .switch p value cases, buf => switch_ok F ae buf p value cases (cases_ok cases buf)
+    | .call .., _ => fun _ _ _ _ _ _ _ h => by simp [toCmd] at h
+    | .letContent p name body, buf => letContent_ok F ae buf p name body (fun b' => block_ok' body b')
+    | .headerParam .., _ => fun _ _ _ _ _ _ _ h => by simp [toCmd] at h
+    | .namespace .., _ => fun _ _ _ _ _ _ _ h => by simp [toCmd] at h
+    | .template .., _ => fun _ _ _ _ _ _ _ h => by simp [toCmd] at h
+    | .soyDoc .., _ => fun _ _ _ _ _ _ _ h => by simp [toCmd] at h
+  theorem body_ok' : ∀ (b : Block) (buf : Bytes), BodyOk F ae buf b
+    | .mk p cmds, buf => body_ok F ae buf p cmds (cmds_ok cmds buf)
+  theorem block_ok' : ∀ (b : Block) (buf : Bytes), BlockOk F ae buf b
+    | .mk p cmds, buf => block_ok F ae buf p cmds (cmds_ok cmds buf)
+  theorem cmds_ok : ∀ (cs : CmdList) (buf : Bytes), CmdsOk F ae buf cs
+    | .nil, buf => cmds_nil_ok F ae buf
+    | .cons c rest, buf => cmds_cons_ok F ae buf c rest (cmd_ok c buf) (cmds_ok rest buf)
+  theorem cases_ok : ∀ (cs : CaseList) (buf : Bytes), CasesOk F ae buf cs
+    | .nil, buf => cases_nil_ok F ae buf
+    | .cons p values body rest, buf => cases_cons_ok F ae buf p values body rest (block_ok' body buf) (cases_ok rest buf)
+  theorem conds_ok : ∀ (cs : CondList) (buf : Bytes), CondsOk F ae buf cs
+    | .nil, buf => conds_nil_ok F ae buf
+    | .cons p (some c) body rest, buf => conds_some_ok F ae buf p c body rest (block_ok' body buf) (conds_ok rest buf)
+    | .cons p none body rest, buf => conds_else_ok F ae buf p body rest (block_ok' body buf)
 end
 
 end
@@ -1774,23 +2833,23 @@ section
 variable (F : Bytes → List Expr → JVal → JOut) (ae : Autoescape) (buf : Bytes)
 
 /-- PARTIAL (C04, command level).  For a list of commands of the fragment — raw text, `{print}` with
-    directives, `{let $x: e /}`, `{if}/{elseif}/{else}`, `{foreach}` / `{ifempty}`, over the expressions of
-    Props/C04c — met in the
+    directives, `{let $x: e /}`, `{if}/{elseif}/{else}`, `{foreach}` / `{ifempty}`, `{for … in range(…)}`, `{switch}`,
+    `{let $x}…{/let}`, over the expressions of Props/C04c — met in the
     generator scope `sc` with output variable `buf`:
     (a) the generator model writes exactly the statements `st` of the translation;
     (b) whenever these statements run to completion (Spec/JsStmt; every interpretation `F` of the
         directive functions) from a JavaScript environment related to the Soy environment `env`, in
         which `buf` holds `out`, the specification renders the commands in `env` to a text, and `buf`
         then holds `out` followed by exactly this text. -/
-theorem gen_correct_cmds_partial (hbuf : buf.contains 36 = false) (sk : List Bytes → List Bytes) (o : Options)
+theorem gen_correct_cmds_partial (sk : List Bytes → List Bytes) (o : Options)
     (cmds : CmdList) (sc : Scope) (r : JsStmts × Scope) (h : toCmds ae buf cmds sc = some r) :
     (∀ ind, Runs (At ind buf ae sc) (At ind buf ae r.2) (walkCmds sk o cmds) (renderStmts ind r.1)) ∧
-    (∀ (fuel : Nat) (env : SEnv) (jenv jenv' : JEnv) (out : Bytes), ScOk sc → EnvRel sc env jenv → BufIs buf jenv out →
+    (∀ (fuel : Nat) (env : SEnv) (jenv jenv' : JEnv) (out : Bytes), ScOk sc → GoodBuf sc buf → EnvRel sc env jenv → BufIs buf jenv out →
       execStmts F fuel r.1 jenv = .ok jenv' →
       ∃ text, refCmds F ae cmds env = .val text ∧ BufIs buf jenv' (out ++ text)) := by
-  refine ⟨walkCmds_renders sk o ae buf cmds sc r h, ?_⟩
-  intro fuel env jenv jenv' out hs hrel hb hx
-  obtain ⟨text, ht, hb', _⟩ := cmds_ok F ae buf hbuf cmds fuel sc r env jenv jenv' out h hs hrel hb hx
+  refine ⟨walkCmds_renders sk o ae cmds buf sc r h, ?_⟩
+  intro fuel env jenv jenv' out hs hg hrel hb hx
+  obtain ⟨text, ht, hb', _⟩ := cmds_ok F ae cmds buf fuel sc r env jenv jenv' out h hs hg hrel hb hx
   exact ⟨text, ht, hb'⟩
 
 /-- the body of a template: entered with `opt_data` the JSON image of the data, after
@@ -1808,8 +2867,8 @@ theorem gen_correct_body_partial (body : CmdList) (n : Nat) (r : JsStmts × Scop
     cases hkv
   have hrel : EnvRel ⟨[[]], n⟩ env ⟨optData, ij, [(b!"output", .str [])]⟩ :=
     C04c.envRel_params _ env _ (fun k => by simp [Scope.lookup, Scope.lookupIn, frameGet?]) hdata
-  obtain ⟨text, ht, hb', _⟩ := cmds_ok F ae b!"output" (by decide) body fuel _ r env _ jenv' [] h hs hrel
-    (by simp [BufIs]) hx
+  obtain ⟨text, ht, hb', _⟩ := cmds_ok F ae body b!"output" fuel _ r env _ jenv' [] h hs
+    (goodBuf_plain n _ (by decide)) hrel (by simp [BufIs]) hx
   exact ⟨text, ht, by simpa using hb'⟩
 
 end
@@ -1821,6 +2880,8 @@ mutual
   def plainCmd : Cmd → Bool
     | .print _ _ dirs => dirs.isEmpty
     | .ifc _ conds => plainConds conds
+    | .switch _ _ cases => plainCases cases
+    | .letContent _ _ body => plainBlock body
     | .forc _ _ _ body ifEmpty =>
       plainBlock body && (match ifEmpty with
         | none => true
@@ -1831,6 +2892,9 @@ mutual
   def plainCmds : CmdList → Bool
     | .nil => true
     | .cons c r => plainCmd c && plainCmds r
+  def plainCases : CaseList → Bool
+    | .nil => true
+    | .cons _ _ body rest => plainBlock body && plainCases rest
   def plainConds : CondList → Bool
     | .nil => true
     | .cons _ _ body rest => plainBlock body && plainConds rest
@@ -1964,9 +3028,20 @@ mutual
           rw [loopSpec_le _ _ (fun env' o ho' => ref_le_spec_block body env' o hp.1 ho') env v _ xs 0 out ho]
           exact h
       | _ => cases h
-    | .switch .., _, _, _, h => by simp [refCmd] at h
+    | .switch p value cases, env, r, hp, h => by
+      rw [Spec.Eval.renderCmd]
+      simp only [refCmd] at h
+      obtain ⟨sv, hsv, h⟩ := out_bind_val h
+      obtain ⟨out, ho, h⟩ := out_bind_val h
+      have := ref_le_spec_cases cases sv env out (by simpa [plainCmd] using hp) ho
+      simp [hsv, this, Spec.Eval.Out.bind, h]
     | .call .., _, _, _, h => by simp [refCmd] at h
-    | .letContent .., _, _, _, h => by simp [refCmd] at h
+    | .letContent p name body, env, r, hp, h => by
+      rw [Spec.Eval.renderCmd]
+      simp only [refCmd] at h
+      obtain ⟨out, ho, h⟩ := out_bind_val h
+      rw [ref_le_spec_block body env out (by simpa [plainCmd] using hp) ho]
+      exact h
     | .headerParam .., _, _, _, h => by simp [refCmd] at h
     | .namespace .., _, _, _, h => by simp [refCmd] at h
     | .template .., _, _, _, h => by simp [refCmd] at h
@@ -1991,6 +3066,29 @@ mutual
       simp only [Spec.Eval.Out.bind]
       rw [ref_le_spec_cmds rest r1.2 more hp.2 h2]
       exact h
+  theorem ref_le_spec_cases : ∀ (cs : CaseList) (sv : Val) (env : SEnv) (out : Bytes), plainCases cs = true →
+      refCases F ae cs sv env = .val out → Spec.Eval.renderCases reg hasBundle (ae != .off) entry call cs sv env = .val out
+    | .nil, sv, env, out, _, h => by
+      rw [Spec.Eval.renderCases]
+      simpa [refCases] using h
+    | .cons p values body rest, sv, env, out, hp, h => by
+      rw [Spec.Eval.renderCases]
+      simp only [plainCases, Bool.and_eq_true] at hp
+      simp only [refCases] at h ⊢
+      by_cases hem : values.isEmpty = true
+      · simp only [hem, if_true] at h ⊢
+        exact ref_le_spec_block body env out hp.1 h
+      · simp only [hem, Bool.false_eq_true, if_false] at h ⊢
+        obtain ⟨hit, hh, h⟩ := out_bind_val h
+        rw [hh]
+        simp only [Spec.Eval.Out.bind]
+        cases hit with
+        | true =>
+          simp only [if_true] at h ⊢
+          exact ref_le_spec_block body env out hp.1 h
+        | false =>
+          simp only [Bool.false_eq_true, if_false] at h ⊢
+          exact ref_le_spec_cases rest sv env out hp.2 h
   theorem ref_le_spec_conds : ∀ (cs : CondList) (env : SEnv) (out : Bytes), plainConds cs = true →
       refConds F ae cs env = .val out → Spec.Eval.renderConds reg hasBundle (ae != .off) entry call none cs env = .val out
     | .nil, env, out, _, h => by
@@ -2021,15 +3119,15 @@ section
 variable (F : Bytes → List Expr → JVal → JOut) (ae : Autoescape)
 
 /-- against Spec/Eval.renderCmds itself: directive-free prints, soy.$$escapeHtml read as htmlEscape -/
-theorem gen_correct_cmds_spec (hesc : EscapeHtmlIs F) (buf : Bytes) (hbuf : buf.contains 36 = false)
+theorem gen_correct_cmds_spec (hesc : EscapeHtmlIs F) (buf : Bytes)
     (cmds : CmdList) (hplain : plainCmds cmds = true) (sc : Scope) (r : JsStmts × Scope)
     (h : toCmds ae buf cmds sc = some r) (env : SEnv) (jenv jenv' : JEnv) (out : Bytes) (hs : ScOk sc)
-    (hrel : EnvRel sc env jenv) (hb : BufIs buf jenv out) (fuel : Nat) (hx : execStmts F fuel r.1 jenv = .ok jenv')
+    (hg : GoodBuf sc buf) (hrel : EnvRel sc env jenv) (hb : BufIs buf jenv out) (fuel : Nat) (hx : execStmts F fuel r.1 jenv = .ok jenv')
     (reg : Registry.Reg) (hasBundle : Bool) (entry : Spec.Eval.Binds)
     (call : Registry.Tmpl → Spec.Eval.CallEnv → Out Bytes) :
     ∃ text, Spec.Eval.renderCmds reg hasBundle (ae != .off) entry call none cmds env = .val text ∧
       BufIs buf jenv' (out ++ text) := by
-  obtain ⟨text, ht, hb', _⟩ := cmds_ok F ae buf hbuf cmds fuel sc r env jenv jenv' out h hs hrel hb hx
+  obtain ⟨text, ht, hb', _⟩ := cmds_ok F ae cmds buf fuel sc r env jenv jenv' out h hs hg hrel hb hx
   exact ⟨text, ref_le_spec_cmds F ae hesc reg hasBundle entry call cmds env text hplain ht, hb'⟩
 
 end
@@ -2095,7 +3193,7 @@ example : ∀ r, toCmds .on b!"output" sampleCmds ⟨[[]], 0⟩ = some r →
     ∃ s', walkCmds id {} sampleCmds { indent := 1, bufferName := b!"output", autoescape := .on, scope := ⟨[[]], 0⟩ } =
       .ok ((), renderStmts 1 r.1, s') ∧ s'.scope = r.2 := by
   intro r h
-  obtain ⟨s', h1, h2⟩ := (gen_correct_cmds_partial sampleF .on b!"output" (by decide) id {} sampleCmds _ r h).1 1
+  obtain ⟨s', h1, h2⟩ := (gen_correct_cmds_partial sampleF .on b!"output" id {} sampleCmds _ r h).1 1
     { indent := 1, bufferName := b!"output", autoescape := .on, scope := ⟨[[]], 0⟩ } ⟨rfl, rfl, rfl, rfl⟩
   exact ⟨s', h1, h2.2.2.2⟩
 
@@ -2149,11 +3247,84 @@ example : (match toCmds .off b!"output" sampleLoop ⟨[[]], 0⟩ with
       | _ => false)
     | none => false) = true := rfl
 
+/-- `{for $i in range(1, $n, 2)}{$i},{/for}{$i}` — after the loop `$i` is the parameter again -/
+def sampleRange : CmdList :=
+  .cons (.forc 0 b!"i" (.func 0 b!"range" (.cons (.int 0 1) (.cons (.dataRef 0 b!"n" .nil) (.cons (.int 0 2) .nil))))
+      (.mk 0 (.cons (.print 0 (.dataRef 0 b!"i" .nil) []) (.cons (.rawText 0 b!",") .nil))) none)
+  (.cons (.print 0 (.dataRef 0 b!"i" .nil) []) .nil)
+
+set_option maxRecDepth 8000 in
+example : (toCmds .off b!"output" sampleRange ⟨[[]], 0⟩).map (fun r => printPieces (renderStmts 1 r.1)) = some
+    b!"  var i$Limit1 = opt_data.n;\n  for (var i$1 = 1; i$1 < i$Limit1; i$1 += 2) {\n    output += i$1;\n    output += ',';\n  }\n  output += opt_data.i;\n" := rfl
+
+example : (match toCmds .off b!"output" sampleRange ⟨[[]], 0⟩ with
+    | some r => (match execStmts sampleF 10 r.1 ⟨[(b!"n", .num 6), (b!"i", .str b!"p")], none, [(b!"output", .str [])]⟩ with
+      | .ok e => (e.locals.find? (·.1 == b!"output")).map (·.2)
+      | _ => none)
+    | none => none) = some (.str b!"1,3,5,p") := rfl
+
+example : refCmds sampleF .off sampleRange
+    { vars := [(b!"n", .int 6), (b!"i", .str b!"p")], loops := [], ij := none, globals := [] } = .val b!"1,3,5,p" := rfl
+
+/-- `{switch $n}{case 1, 2}low{let $n: 'x' /}{$n}{case 'a'}str{default}other{/switch}{$n}` -/
+def sampleSwitch : CmdList :=
+  .cons (.switch 0 (.dataRef 0 b!"n" .nil)
+    (.cons 0 [.int 0 1, .int 0 2] (.mk 0 (.cons (.rawText 0 b!"low") (.cons (.letValue 0 b!"n" (.str 0 b!"'x'" b!"x"))
+        (.cons (.print 0 (.dataRef 0 b!"n" .nil) []) .nil))))
+      (.cons 0 [.str 0 b!"'a'" b!"a"] (.mk 0 (.cons (.rawText 0 b!"str") .nil))
+        (.cons 0 [] (.mk 0 (.cons (.rawText 0 b!"other") .nil)) .nil))))
+  (.cons (.print 0 (.dataRef 0 b!"n" .nil) []) .nil)
+
+set_option maxRecDepth 8000 in
+example : (toCmds .off b!"output" sampleSwitch ⟨[[]], 0⟩).map (fun r => printPieces (renderStmts 1 r.1)) = some
+    b!"  switch (opt_data.n) {\n    case 1:\n    case 2:\n      output += 'low';\n      var n$1 = 'x';\n      output += n$1;\n      break;\n    case 'a':\n      output += 'str';\n      break;\n    default:\n      output += 'other';\n      break;\n  }\n  output += opt_data.n;\n" := rfl
+
+def switchRun (n : JVal) : Option JVal :=
+  match toCmds .off b!"output" sampleSwitch ⟨[[]], 0⟩ with
+  | some r =>
+    (match execStmts sampleF 10 r.1 ⟨[(b!"n", n)], none, [(b!"output", .str [])]⟩ with
+      | .ok e => (e.locals.find? (·.1 == b!"output")).map (·.2)
+      | _ => none)
+  | none => none
+
+example : switchRun (.num 2) = some (.str b!"lowx2") := rfl
+example : switchRun (.str b!"a") = some (.str b!"stra") := rfl
+example : switchRun (.bool true) = some (.str b!"othertrue") := rfl
+example : refCmds sampleF .off sampleSwitch { vars := [(b!"n", .int 2)], loops := [], ij := none, globals := [] } =
+    .val b!"lowx2" := rfl
+
+/-- `a{let $x}<{$n}{let $n}in{/let}{$n}>{/let}b{$x}{$n}` — the inner `{let $n}` is visible in the content block only -/
+def sampleContent : CmdList :=
+  .cons (.rawText 0 b!"a")
+  (.cons (.letContent 0 b!"x" (.mk 0 (.cons (.rawText 0 b!"<") (.cons (.print 0 (.dataRef 0 b!"n" .nil) [])
+      (.cons (.letContent 0 b!"n" (.mk 0 (.cons (.rawText 0 b!"in") .nil)))
+        (.cons (.print 0 (.dataRef 0 b!"n" .nil) []) (.cons (.rawText 0 b!">") .nil)))))))
+  (.cons (.rawText 0 b!"b") (.cons (.print 0 (.dataRef 0 b!"x" .nil) []) (.cons (.print 0 (.dataRef 0 b!"n" .nil) []) .nil))))
+
+set_option maxRecDepth 8000 in
+example : (toCmds .off b!"output" sampleContent ⟨[[]], 0⟩).map (fun r => printPieces (renderStmts 1 r.1)) = some
+    b!"  output += 'a';\n  var x$1 = '';\n  x$1 += '\\u003C';\n  x$1 += opt_data.n;\n  var n$2 = '';\n  n$2 += 'in';\n  x$1 += n$2;\n  x$1 += '\\u003E';\n  output += 'b';\n  output += x$1;\n  output += opt_data.n;\n" := rfl
+
+example : (match toCmds .off b!"output" sampleContent ⟨[[]], 0⟩ with
+    | some r => (match execStmts sampleF 10 r.1 ⟨[(b!"n", .num 7)], none, [(b!"output", .str [])]⟩ with
+      | .ok e => (e.locals.find? (·.1 == b!"output")).map (·.2)
+      | _ => none)
+    | none => none) = some (.str b!"ab<7in>7") := rfl
+
+example : refCmds sampleF .off sampleContent { vars := [(b!"n", .int 7)], loops := [], ij := none, globals := [] } =
+    .val b!"ab<7in>7" := rfl
+
 /-! ## what is proved, and what remains outside
 
   PROVED, for command lists built from raw text, `{print e |d…}` (directive arguments literal, every
   directive known to both backends), `{let $x: e /}`, `{if}/{elseif}/{else}`, `{foreach $x in e}` with
-  or without `{ifempty}` (`e` not a `range(…)` call) — nested at will — with `e` in the expression
+  or without `{ifempty}`, `{for $i in range(…)}` with one to three arguments (the step absent or a
+  positive integer literal: the specification leaves a non-positive step open, and JavaScript then
+  loops forever or not at all), `{switch e}{case v, …}…{default}…{/switch}` (`===` on null / booleans /
+  numbers / strings against the specification's equality; `undefined` and lists / maps as switch value or label
+  are outside the subset), `{let $x}…{/let}` (`var x$n = ''; x$n += …;` — the body is translated with the
+  new buffer; `GoodBuf`: the buffer in use is no local the scope hands out and no name still to be
+  generated) — nested at will — with `e` in the expression
   fragment of Props/C04c (literals, arithmetic / comparison / logic, `?:`, `?:`-elvis, variables and
   parameters with `.k` / `[i]` / `?.k` accesses, length / isNonnull / floor / ceiling / round / min /
   max; no floats, integers a double holds exactly):
@@ -2168,16 +3339,14 @@ example : (match toCmds .off b!"output" sampleLoop ⟨[[]], 0⟩ with
     * `ref_le_spec_cmds` / `gen_correct_cmds_spec` — without print directives and with
       soy.$$escapeHtml read as `htmlEscape ∘ ToString` (`EscapeHtmlIs`, a LIBRARY obligation),
       `refCmds` is Spec/Eval.renderCmds, the specification C02Spec proves the Go interpreter against.
-  DIRECTION: "if the JavaScript completes, the specification yields that text".  Not shown: that
-  the JavaScript completes whenever the specification yields a text (it does not always: a print
-  of a list or a map is text in Soy and `unspec` here; a `{foreach}` over a non-list is a Soy error
-  and a TypeError / nothing at all in JavaScript).
+  DIRECTION: "if the JavaScript completes, the specification yields that text".  The converse is
+  Props/C04e (`gen_complete_cmds_partial`): where `refCmds` renders a text the JavaScript completes with
+  it or leaves the common subset (`unspec`: a print of a list or a map is text in Soy and outside the
+  subset here, as is an integer beyond 2^53) — it never throws.
 
-  OUTSIDE (no theorem at the command level): `{for $i in range(…)}` (the statement
-  `for (var i = a; i < b; i += c)` and its agreement with the list `range` builds), the loop functions
-  index / isFirst / isLast, `{switch}`, `{call}` (needs a semantics of the generated FUNCTIONS and
-  of soy.$$augmentMap), `{msg}` (placeholders, plural), `{let}` / `{param}` with content (a second
-  output variable), `{css}`, `{log}`, `{debugger}`, `$ij`, globals, print directives with
+  OUTSIDE (no theorem at the command level): `range` with a computed step, the loop functions
+  index / isFirst / isLast, `{call}` (needs a semantics of the generated FUNCTIONS and
+  of soy.$$augmentMap; `{param}` content blocks with it), `{msg}` (placeholders, plural), `{css}`, `{log}`, `{debugger}`, `$ij`, globals, print directives with
   non-literal arguments, the template header (`opt_data = opt_data || {}`, `return output`) and
   the file level (namespaces, goog.provide / ES6 imports — covered for SHAPE by C14, not for meaning). -/
 
